@@ -9,6 +9,12 @@ type nat =
 | O
 | S of nat
 
+(** val option_map : ('a1 -> 'a2) -> 'a1 option -> 'a2 option **)
+
+let option_map f = function
+| Some a -> Some (f a)
+| None -> None
+
 (** val fst : ('a1 * 'a2) -> 'a1 **)
 
 let fst = function
@@ -37,12 +43,23 @@ type comparison =
 | Lt
 | Gt
 
-(** val add : nat -> nat -> nat **)
+module Coq__1 = struct
+ (** val add : nat -> nat -> nat **)
+ let rec add n0 m =
+   match n0 with
+   | O -> m
+   | S p -> S (add p m)
+end
+include Coq__1
 
-let rec add n0 m =
+(** val sub : nat -> nat -> nat **)
+
+let rec sub n0 m =
   match n0 with
-  | O -> m
-  | S p -> S (add p m)
+  | O -> n0
+  | S k -> (match m with
+            | O -> n0
+            | S l -> sub k l)
 
 type positive =
 | XI of positive
@@ -53,8 +70,19 @@ type n =
 | N0
 | Npos of positive
 
+type z =
+| Z0
+| Zpos of positive
+| Zneg of positive
+
 module Nat =
  struct
+  (** val pred : nat -> nat **)
+
+  let pred n0 = match n0 with
+  | O -> n0
+  | S u -> u
+
   (** val leb : nat -> nat -> bool **)
 
   let rec leb n0 m =
@@ -86,6 +114,45 @@ module Coq_Pos =
   | XI p -> XO (succ p)
   | XO p -> XI p
   | XH -> XO XH
+
+  (** val add : positive -> positive -> positive **)
+
+  let rec add x y =
+    match x with
+    | XI p ->
+      (match y with
+       | XI q -> XO (add_carry p q)
+       | XO q -> XI (add p q)
+       | XH -> XO (succ p))
+    | XO p ->
+      (match y with
+       | XI q -> XI (add p q)
+       | XO q -> XO (add p q)
+       | XH -> XI p)
+    | XH -> (match y with
+             | XI q -> XO (succ q)
+             | XO q -> XI q
+             | XH -> XO XH)
+
+  (** val add_carry : positive -> positive -> positive **)
+
+  and add_carry x y =
+    match x with
+    | XI p ->
+      (match y with
+       | XI q -> XI (add_carry p q)
+       | XO q -> XO (add_carry p q)
+       | XH -> XI (succ p))
+    | XO p ->
+      (match y with
+       | XI q -> XO (add_carry p q)
+       | XO q -> XI (add p q)
+       | XH -> XO (succ p))
+    | XH ->
+      (match y with
+       | XI q -> XI (succ q)
+       | XO q -> XO (succ q)
+       | XH -> XI XH)
 
   (** val pred_double : positive -> positive **)
 
@@ -153,6 +220,14 @@ module Coq_Pos =
        | XH -> double_pred_mask p)
     | XH -> IsNeg
 
+  (** val mul : positive -> positive -> positive **)
+
+  let rec mul x y =
+    match x with
+    | XI p -> add y (XO (mul p y))
+    | XO p -> XO (mul p y)
+    | XH -> y
+
   (** val size : positive -> positive **)
 
   let rec size = function
@@ -208,7 +283,7 @@ module Coq_Pos =
   (** val to_nat : positive -> nat **)
 
   let to_nat x =
-    iter_op add x (S O)
+    iter_op Coq__1.add x (S O)
 
   (** val of_succ_nat : nat -> positive **)
 
@@ -231,6 +306,15 @@ module N =
   | N0 -> N0
   | Npos p -> Npos (XO p)
 
+  (** val add : n -> n -> n **)
+
+  let add n0 m =
+    match n0 with
+    | N0 -> m
+    | Npos p -> (match m with
+                 | N0 -> n0
+                 | Npos q -> Npos (Coq_Pos.add p q))
+
   (** val sub : n -> n -> n **)
 
   let sub n0 m =
@@ -243,6 +327,15 @@ module N =
          (match Coq_Pos.sub_mask n' m' with
           | Coq_Pos.IsPos p -> Npos p
           | _ -> N0))
+
+  (** val mul : n -> n -> n **)
+
+  let mul n0 m =
+    match n0 with
+    | N0 -> N0
+    | Npos p -> (match m with
+                 | N0 -> N0
+                 | Npos q -> Npos (Coq_Pos.mul p q))
 
   (** val compare : n -> n -> comparison **)
 
@@ -366,6 +459,40 @@ let ascii_of_N = function
 let ascii_of_nat a =
   ascii_of_N (N.of_nat a)
 
+(** val n_of_digits : bool list -> n **)
+
+let rec n_of_digits = function
+| [] -> N0
+| b :: l' ->
+  N.add (if b then Npos XH else N0) (N.mul (Npos (XO XH)) (n_of_digits l'))
+
+(** val n_of_ascii : char -> n **)
+
+let n_of_ascii a =
+  (* If this appears, you're using Ascii internals. Please don't *)
+ (fun f c ->
+  let n = Char.code c in
+  let h i = (n land (1 lsl i)) <> 0 in
+  f (h 0) (h 1) (h 2) (h 3) (h 4) (h 5) (h 6) (h 7))
+    (fun a0 a1 a2 a3 a4 a5 a6 a7 ->
+    n_of_digits
+      (a0 :: (a1 :: (a2 :: (a3 :: (a4 :: (a5 :: (a6 :: (a7 :: [])))))))))
+    a
+
+(** val nat_of_ascii : char -> nat **)
+
+let nat_of_ascii a =
+  N.to_nat (n_of_ascii a)
+
+(** val last : 'a1 list -> 'a1 -> 'a1 **)
+
+let rec last l d =
+  match l with
+  | [] -> d
+  | a :: l0 -> (match l0 with
+                | [] -> a
+                | _ :: _ -> last l0 d)
+
 (** val map : ('a1 -> 'a2) -> 'a1 list -> 'a2 list **)
 
 let rec map f = function
@@ -377,6 +504,34 @@ let rec map f = function
 let rec forallb f = function
 | [] -> true
 | a :: l0 -> (&&) (f a) (forallb f l0)
+
+(** val find : ('a1 -> bool) -> 'a1 list -> 'a1 option **)
+
+let rec find f = function
+| [] -> None
+| x :: tl -> if f x then Some x else find f tl
+
+module Z =
+ struct
+  (** val opp : z -> z **)
+
+  let opp = function
+  | Z0 -> Z0
+  | Zpos x0 -> Zneg x0
+  | Zneg x0 -> Zpos x0
+
+  (** val to_nat : z -> nat **)
+
+  let to_nat = function
+  | Zpos p -> Coq_Pos.to_nat p
+  | _ -> O
+
+  (** val of_N : n -> z **)
+
+  let of_N = function
+  | N0 -> Z0
+  | Npos p -> Zpos p
+ end
 
 (** val eqb0 : char list -> char list -> bool **)
 
@@ -485,6 +640,72 @@ let dec_N n0 =
 let dec_nat n0 =
   dec_N (N.of_nat n0)
 
+(** val is_digit : char -> bool **)
+
+let is_digit c =
+  let n0 = nat_of_ascii c in
+  (&&)
+    (Nat.leb (S (S (S (S (S (S (S (S (S (S (S (S (S (S (S (S (S (S (S (S (S
+      (S (S (S (S (S (S (S (S (S (S (S (S (S (S (S (S (S (S (S (S (S (S (S (S
+      (S (S (S O)))))))))))))))))))))))))))))))))))))))))))))))) n0)
+    (Nat.leb n0 (S (S (S (S (S (S (S (S (S (S (S (S (S (S (S (S (S (S (S (S
+      (S (S (S (S (S (S (S (S (S (S (S (S (S (S (S (S (S (S (S (S (S (S (S (S
+      (S (S (S (S (S (S (S (S (S (S (S (S (S
+      O))))))))))))))))))))))))))))))))))))))))))))))))))))))))))
+
+(** val parse_N_acc : char list -> n -> n option **)
+
+let rec parse_N_acc s acc =
+  match s with
+  | [] -> Some acc
+  | c::r ->
+    if is_digit c
+    then parse_N_acc r
+           (N.add (N.mul acc (Npos (XO (XI (XO XH)))))
+             (N.of_nat
+               (sub (nat_of_ascii c) (S (S (S (S (S (S (S (S (S (S (S (S (S
+                 (S (S (S (S (S (S (S (S (S (S (S (S (S (S (S (S (S (S (S (S
+                 (S (S (S (S (S (S (S (S (S (S (S (S (S (S (S
+                 O)))))))))))))))))))))))))))))))))))))))))))))))))))
+    else None
+
+(** val parse_N : char list -> n option **)
+
+let parse_N s = match s with
+| [] -> None
+| _::_ -> parse_N_acc s N0
+
+(** val parse_Z : char list -> z option **)
+
+let parse_Z s = match s with
+| [] -> option_map Z.of_N (parse_N s)
+| a::r ->
+  (* If this appears, you're using Ascii internals. Please don't *)
+ (fun f c ->
+  let n = Char.code c in
+  let h i = (n land (1 lsl i)) <> 0 in
+  f (h 0) (h 1) (h 2) (h 3) (h 4) (h 5) (h 6) (h 7))
+    (fun b b0 b1 b2 b3 b4 b5 b6 ->
+    if b
+    then if b0
+         then option_map Z.of_N (parse_N s)
+         else if b1
+              then if b2
+                   then if b3
+                        then option_map Z.of_N (parse_N s)
+                        else if b4
+                             then if b5
+                                  then option_map Z.of_N (parse_N s)
+                                  else if b6
+                                       then option_map Z.of_N (parse_N s)
+                                       else option_map (fun n0 ->
+                                              Z.opp (Z.of_N n0)) (parse_N r)
+                             else option_map Z.of_N (parse_N s)
+                   else option_map Z.of_N (parse_N s)
+              else option_map Z.of_N (parse_N s)
+    else option_map Z.of_N (parse_N s))
+    a
+
 type sexp =
 | SAtom of char list
 | SList of sexp list
@@ -546,6 +767,307 @@ let rec d_list d = function
 let d_strs = function
 | SAtom _ -> None
 | SList l -> d_list d_str l
+
+(** val d_Z : sexp -> z option **)
+
+let d_Z = function
+| SAtom a -> parse_Z a
+| SList _ -> None
+
+(** val d_nat : sexp -> nat option **)
+
+let d_nat s =
+  option_map Z.to_nat (d_Z s)
+
+(** val d_bool : sexp -> bool option **)
+
+let d_bool = function
+| SAtom s0 ->
+  (match s0 with
+   | [] -> None
+   | a::s1 ->
+     (* If this appears, you're using Ascii internals. Please don't *)
+ (fun f c ->
+  let n = Char.code c in
+  let h i = (n land (1 lsl i)) <> 0 in
+  f (h 0) (h 1) (h 2) (h 3) (h 4) (h 5) (h 6) (h 7))
+       (fun b b0 b1 b2 b3 b4 b5 b6 ->
+       if b
+       then None
+       else if b0
+            then if b1
+                 then if b2
+                      then None
+                      else if b3
+                           then None
+                           else if b4
+                                then if b5
+                                     then if b6
+                                          then None
+                                          else (match s1 with
+                                                | [] -> None
+                                                | a0::s2 ->
+                                                  (* If this appears, you're using Ascii internals. Please don't *)
+ (fun f c ->
+  let n = Char.code c in
+  let h i = (n land (1 lsl i)) <> 0 in
+  f (h 0) (h 1) (h 2) (h 3) (h 4) (h 5) (h 6) (h 7))
+                                                    (fun b7 b8 b9 b10 b11 b12 b13 b14 ->
+                                                    if b7
+                                                    then if b8
+                                                         then None
+                                                         else if b9
+                                                              then None
+                                                              else if b10
+                                                                   then None
+                                                                   else 
+                                                                    if b11
+                                                                    then None
+                                                                    else 
+                                                                    if b12
+                                                                    then 
+                                                                    if b13
+                                                                    then 
+                                                                    if b14
+                                                                    then None
+                                                                    else 
+                                                                    (match s2 with
+                                                                    | [] ->
+                                                                    None
+                                                                    | a1::s3 ->
+                                                                    (* If this appears, you're using Ascii internals. Please don't *)
+ (fun f c ->
+  let n = Char.code c in
+  let h i = (n land (1 lsl i)) <> 0 in
+  f (h 0) (h 1) (h 2) (h 3) (h 4) (h 5) (h 6) (h 7))
+                                                                    (fun b15 b16 b17 b18 b19 b20 b21 b22 ->
+                                                                    if b15
+                                                                    then None
+                                                                    else 
+                                                                    if b16
+                                                                    then None
+                                                                    else 
+                                                                    if b17
+                                                                    then 
+                                                                    if b18
+                                                                    then 
+                                                                    if b19
+                                                                    then None
+                                                                    else 
+                                                                    if b20
+                                                                    then 
+                                                                    if b21
+                                                                    then 
+                                                                    if b22
+                                                                    then None
+                                                                    else 
+                                                                    (match s3 with
+                                                                    | [] ->
+                                                                    None
+                                                                    | a2::s4 ->
+                                                                    (* If this appears, you're using Ascii internals. Please don't *)
+ (fun f c ->
+  let n = Char.code c in
+  let h i = (n land (1 lsl i)) <> 0 in
+  f (h 0) (h 1) (h 2) (h 3) (h 4) (h 5) (h 6) (h 7))
+                                                                    (fun b23 b24 b25 b26 b27 b28 b29 b30 ->
+                                                                    if b23
+                                                                    then 
+                                                                    if b24
+                                                                    then 
+                                                                    if b25
+                                                                    then None
+                                                                    else 
+                                                                    if b26
+                                                                    then None
+                                                                    else 
+                                                                    if b27
+                                                                    then 
+                                                                    if b28
+                                                                    then 
+                                                                    if b29
+                                                                    then 
+                                                                    if b30
+                                                                    then None
+                                                                    else 
+                                                                    (match s4 with
+                                                                    | [] ->
+                                                                    None
+                                                                    | a3::s5 ->
+                                                                    (* If this appears, you're using Ascii internals. Please don't *)
+ (fun f c ->
+  let n = Char.code c in
+  let h i = (n land (1 lsl i)) <> 0 in
+  f (h 0) (h 1) (h 2) (h 3) (h 4) (h 5) (h 6) (h 7))
+                                                                    (fun b31 b32 b33 b34 b35 b36 b37 b38 ->
+                                                                    if b31
+                                                                    then 
+                                                                    if b32
+                                                                    then None
+                                                                    else 
+                                                                    if b33
+                                                                    then 
+                                                                    if b34
+                                                                    then None
+                                                                    else 
+                                                                    if b35
+                                                                    then None
+                                                                    else 
+                                                                    if b36
+                                                                    then 
+                                                                    if b37
+                                                                    then 
+                                                                    if b38
+                                                                    then None
+                                                                    else 
+                                                                    (match s5 with
+                                                                    | [] ->
+                                                                    Some false
+                                                                    | _::_ ->
+                                                                    None)
+                                                                    else None
+                                                                    else None
+                                                                    else None
+                                                                    else None)
+                                                                    a3)
+                                                                    else None
+                                                                    else None
+                                                                    else None
+                                                                    else None
+                                                                    else None)
+                                                                    a2)
+                                                                    else None
+                                                                    else None
+                                                                    else None
+                                                                    else None)
+                                                                    a1)
+                                                                    else None
+                                                                    else None
+                                                    else None)
+                                                    a0)
+                                     else None
+                                else None
+                 else None
+            else if b1
+                 then if b2
+                      then None
+                      else if b3
+                           then if b4
+                                then if b5
+                                     then if b6
+                                          then None
+                                          else (match s1 with
+                                                | [] -> None
+                                                | a0::s2 ->
+                                                  (* If this appears, you're using Ascii internals. Please don't *)
+ (fun f c ->
+  let n = Char.code c in
+  let h i = (n land (1 lsl i)) <> 0 in
+  f (h 0) (h 1) (h 2) (h 3) (h 4) (h 5) (h 6) (h 7))
+                                                    (fun b7 b8 b9 b10 b11 b12 b13 b14 ->
+                                                    if b7
+                                                    then None
+                                                    else if b8
+                                                         then if b9
+                                                              then None
+                                                              else if b10
+                                                                   then None
+                                                                   else 
+                                                                    if b11
+                                                                    then 
+                                                                    if b12
+                                                                    then 
+                                                                    if b13
+                                                                    then 
+                                                                    if b14
+                                                                    then None
+                                                                    else 
+                                                                    (match s2 with
+                                                                    | [] ->
+                                                                    None
+                                                                    | a1::s3 ->
+                                                                    (* If this appears, you're using Ascii internals. Please don't *)
+ (fun f c ->
+  let n = Char.code c in
+  let h i = (n land (1 lsl i)) <> 0 in
+  f (h 0) (h 1) (h 2) (h 3) (h 4) (h 5) (h 6) (h 7))
+                                                                    (fun b15 b16 b17 b18 b19 b20 b21 b22 ->
+                                                                    if b15
+                                                                    then 
+                                                                    if b16
+                                                                    then None
+                                                                    else 
+                                                                    if b17
+                                                                    then 
+                                                                    if b18
+                                                                    then None
+                                                                    else 
+                                                                    if b19
+                                                                    then 
+                                                                    if b20
+                                                                    then 
+                                                                    if b21
+                                                                    then 
+                                                                    if b22
+                                                                    then None
+                                                                    else 
+                                                                    (match s3 with
+                                                                    | [] ->
+                                                                    None
+                                                                    | a2::s4 ->
+                                                                    (* If this appears, you're using Ascii internals. Please don't *)
+ (fun f c ->
+  let n = Char.code c in
+  let h i = (n land (1 lsl i)) <> 0 in
+  f (h 0) (h 1) (h 2) (h 3) (h 4) (h 5) (h 6) (h 7))
+                                                                    (fun b23 b24 b25 b26 b27 b28 b29 b30 ->
+                                                                    if b23
+                                                                    then 
+                                                                    if b24
+                                                                    then None
+                                                                    else 
+                                                                    if b25
+                                                                    then 
+                                                                    if b26
+                                                                    then None
+                                                                    else 
+                                                                    if b27
+                                                                    then None
+                                                                    else 
+                                                                    if b28
+                                                                    then 
+                                                                    if b29
+                                                                    then 
+                                                                    if b30
+                                                                    then None
+                                                                    else 
+                                                                    (match s4 with
+                                                                    | [] ->
+                                                                    Some true
+                                                                    | _::_ ->
+                                                                    None)
+                                                                    else None
+                                                                    else None
+                                                                    else None
+                                                                    else None)
+                                                                    a2)
+                                                                    else None
+                                                                    else None
+                                                                    else None
+                                                                    else None
+                                                                    else None)
+                                                                    a1)
+                                                                    else None
+                                                                    else None
+                                                                    else None
+                                                         else None)
+                                                    a0)
+                                     else None
+                                else None
+                           else None
+                 else None)
+       a)
+| SList _ -> None
 
 (** val bad_input : sexp **)
 
@@ -894,27 +1416,2382 @@ let audit e doc =
 (** val math_rows : mrow list **)
 
 let math_rows =
-  []
+  { m_py = ('s'::('i'::('n'::[]))); m_cpp =
+    ('s'::('t'::('d'::(':'::(':'::('s'::('i'::('n'::[])))))))); m_inc =
+    (('c'::('m'::('a'::('t'::('h'::[]))))) :: []); m_ret =
+    ('d'::('o'::('u'::('b'::('l'::('e'::[])))))) } :: ({ m_py =
+    ('c'::('o'::('s'::[]))); m_cpp =
+    ('s'::('t'::('d'::(':'::(':'::('c'::('o'::('s'::[])))))))); m_inc =
+    (('c'::('m'::('a'::('t'::('h'::[]))))) :: []); m_ret =
+    ('d'::('o'::('u'::('b'::('l'::('e'::[])))))) } :: ({ m_py =
+    ('t'::('a'::('n'::[]))); m_cpp =
+    ('s'::('t'::('d'::(':'::(':'::('t'::('a'::('n'::[])))))))); m_inc =
+    (('c'::('m'::('a'::('t'::('h'::[]))))) :: []); m_ret =
+    ('d'::('o'::('u'::('b'::('l'::('e'::[])))))) } :: ({ m_py =
+    ('a'::('c'::('o'::('s'::[])))); m_cpp =
+    ('s'::('t'::('d'::(':'::(':'::('a'::('c'::('o'::('s'::[])))))))));
+    m_inc = (('c'::('m'::('a'::('t'::('h'::[]))))) :: []); m_ret =
+    ('d'::('o'::('u'::('b'::('l'::('e'::[])))))) } :: ({ m_py =
+    ('a'::('s'::('i'::('n'::[])))); m_cpp =
+    ('s'::('t'::('d'::(':'::(':'::('a'::('s'::('i'::('n'::[])))))))));
+    m_inc = (('c'::('m'::('a'::('t'::('h'::[]))))) :: []); m_ret =
+    ('d'::('o'::('u'::('b'::('l'::('e'::[])))))) } :: ({ m_py =
+    ('a'::('t'::('a'::('n'::[])))); m_cpp =
+    ('s'::('t'::('d'::(':'::(':'::('a'::('t'::('a'::('n'::[])))))))));
+    m_inc = (('c'::('m'::('a'::('t'::('h'::[]))))) :: []); m_ret =
+    ('d'::('o'::('u'::('b'::('l'::('e'::[])))))) } :: ({ m_py =
+    ('a'::('t'::('a'::('n'::('2'::[]))))); m_cpp =
+    ('s'::('t'::('d'::(':'::(':'::('a'::('t'::('a'::('n'::('2'::[]))))))))));
+    m_inc = (('c'::('m'::('a'::('t'::('h'::[]))))) :: []); m_ret =
+    ('d'::('o'::('u'::('b'::('l'::('e'::[])))))) } :: ({ m_py =
+    ('s'::('i'::('n'::('h'::[])))); m_cpp =
+    ('s'::('t'::('d'::(':'::(':'::('s'::('i'::('n'::('h'::[])))))))));
+    m_inc = (('c'::('m'::('a'::('t'::('h'::[]))))) :: []); m_ret =
+    ('d'::('o'::('u'::('b'::('l'::('e'::[])))))) } :: ({ m_py =
+    ('c'::('o'::('s'::('h'::[])))); m_cpp =
+    ('s'::('t'::('d'::(':'::(':'::('c'::('o'::('s'::('h'::[])))))))));
+    m_inc = (('c'::('m'::('a'::('t'::('h'::[]))))) :: []); m_ret =
+    ('d'::('o'::('u'::('b'::('l'::('e'::[])))))) } :: ({ m_py =
+    ('t'::('a'::('n'::('h'::[])))); m_cpp =
+    ('s'::('t'::('d'::(':'::(':'::('t'::('a'::('n'::('h'::[])))))))));
+    m_inc = (('c'::('m'::('a'::('t'::('h'::[]))))) :: []); m_ret =
+    ('d'::('o'::('u'::('b'::('l'::('e'::[])))))) } :: ({ m_py =
+    ('a'::('s'::('i'::('n'::('h'::[]))))); m_cpp =
+    ('s'::('t'::('d'::(':'::(':'::('a'::('s'::('i'::('n'::('h'::[]))))))))));
+    m_inc = (('c'::('m'::('a'::('t'::('h'::[]))))) :: []); m_ret =
+    ('d'::('o'::('u'::('b'::('l'::('e'::[])))))) } :: ({ m_py =
+    ('a'::('c'::('o'::('s'::('h'::[]))))); m_cpp =
+    ('s'::('t'::('d'::(':'::(':'::('a'::('c'::('o'::('s'::('h'::[]))))))))));
+    m_inc = (('c'::('m'::('a'::('t'::('h'::[]))))) :: []); m_ret =
+    ('d'::('o'::('u'::('b'::('l'::('e'::[])))))) } :: ({ m_py =
+    ('a'::('t'::('a'::('n'::('h'::[]))))); m_cpp =
+    ('s'::('t'::('d'::(':'::(':'::('a'::('t'::('a'::('n'::('h'::[]))))))))));
+    m_inc = (('c'::('m'::('a'::('t'::('h'::[]))))) :: []); m_ret =
+    ('d'::('o'::('u'::('b'::('l'::('e'::[])))))) } :: ({ m_py =
+    ('e'::('x'::('p'::[]))); m_cpp =
+    ('s'::('t'::('d'::(':'::(':'::('e'::('x'::('p'::[])))))))); m_inc =
+    (('c'::('m'::('a'::('t'::('h'::[]))))) :: []); m_ret =
+    ('d'::('o'::('u'::('b'::('l'::('e'::[])))))) } :: ({ m_py =
+    ('l'::('d'::('e'::('x'::('p'::[]))))); m_cpp =
+    ('s'::('t'::('d'::(':'::(':'::('l'::('d'::('e'::('x'::('p'::[]))))))))));
+    m_inc = (('c'::('m'::('a'::('t'::('h'::[]))))) :: []); m_ret =
+    ('d'::('o'::('u'::('b'::('l'::('e'::[])))))) } :: ({ m_py =
+    ('l'::('o'::('g'::[]))); m_cpp =
+    ('s'::('t'::('d'::(':'::(':'::('l'::('o'::('g'::[])))))))); m_inc =
+    (('c'::('m'::('a'::('t'::('h'::[]))))) :: []); m_ret =
+    ('d'::('o'::('u'::('b'::('l'::('e'::[])))))) } :: ({ m_py =
+    ('l'::('n'::[])); m_cpp =
+    ('s'::('t'::('d'::(':'::(':'::('l'::('o'::('g'::[])))))))); m_inc =
+    (('c'::('m'::('a'::('t'::('h'::[]))))) :: []); m_ret =
+    ('d'::('o'::('u'::('b'::('l'::('e'::[])))))) } :: ({ m_py =
+    ('l'::('o'::('g'::('1'::('0'::[]))))); m_cpp =
+    ('s'::('t'::('d'::(':'::(':'::('l'::('o'::('g'::('1'::('0'::[]))))))))));
+    m_inc = (('c'::('m'::('a'::('t'::('h'::[]))))) :: []); m_ret =
+    ('d'::('o'::('u'::('b'::('l'::('e'::[])))))) } :: ({ m_py =
+    ('e'::('x'::('p'::('2'::[])))); m_cpp =
+    ('s'::('t'::('d'::(':'::(':'::('e'::('x'::('p'::('2'::[])))))))));
+    m_inc = (('c'::('m'::('a'::('t'::('h'::[]))))) :: []); m_ret =
+    ('d'::('o'::('u'::('b'::('l'::('e'::[])))))) } :: ({ m_py =
+    ('e'::('x'::('p'::('m'::('1'::[]))))); m_cpp =
+    ('s'::('t'::('d'::(':'::(':'::('e'::('x'::('p'::('m'::('1'::[]))))))))));
+    m_inc = (('c'::('m'::('a'::('t'::('h'::[]))))) :: []); m_ret =
+    ('d'::('o'::('u'::('b'::('l'::('e'::[])))))) } :: ({ m_py =
+    ('i'::('l'::('o'::('g'::('b'::[]))))); m_cpp =
+    ('s'::('t'::('d'::(':'::(':'::('i'::('l'::('o'::('g'::('b'::[]))))))))));
+    m_inc = (('c'::('m'::('a'::('t'::('h'::[]))))) :: []); m_ret =
+    ('d'::('o'::('u'::('b'::('l'::('e'::[])))))) } :: ({ m_py =
+    ('l'::('o'::('g'::('1'::('p'::[]))))); m_cpp =
+    ('s'::('t'::('d'::(':'::(':'::('l'::('o'::('g'::('1'::('p'::[]))))))))));
+    m_inc = (('c'::('m'::('a'::('t'::('h'::[]))))) :: []); m_ret =
+    ('d'::('o'::('u'::('b'::('l'::('e'::[])))))) } :: ({ m_py =
+    ('l'::('o'::('g'::('2'::[])))); m_cpp =
+    ('s'::('t'::('d'::(':'::(':'::('l'::('o'::('g'::('2'::[])))))))));
+    m_inc = (('c'::('m'::('a'::('t'::('h'::[]))))) :: []); m_ret =
+    ('d'::('o'::('u'::('b'::('l'::('e'::[])))))) } :: ({ m_py =
+    ('s'::('c'::('a'::('l'::('b'::('n'::[])))))); m_cpp =
+    ('s'::('t'::('d'::(':'::(':'::('s'::('c'::('a'::('l'::('b'::('n'::[])))))))))));
+    m_inc = (('c'::('m'::('a'::('t'::('h'::[]))))) :: []); m_ret =
+    ('d'::('o'::('u'::('b'::('l'::('e'::[])))))) } :: ({ m_py =
+    ('s'::('c'::('a'::('l'::('b'::('l'::('n'::[]))))))); m_cpp =
+    ('s'::('t'::('d'::(':'::(':'::('s'::('c'::('a'::('l'::('b'::('l'::('n'::[]))))))))))));
+    m_inc = (('c'::('m'::('a'::('t'::('h'::[]))))) :: []); m_ret =
+    ('d'::('o'::('u'::('b'::('l'::('e'::[])))))) } :: ({ m_py =
+    ('p'::('o'::('w'::[]))); m_cpp =
+    ('s'::('t'::('d'::(':'::(':'::('p'::('o'::('w'::[])))))))); m_inc =
+    (('c'::('m'::('a'::('t'::('h'::[]))))) :: []); m_ret =
+    ('d'::('o'::('u'::('b'::('l'::('e'::[])))))) } :: ({ m_py =
+    ('s'::('q'::('r'::('t'::[])))); m_cpp =
+    ('s'::('t'::('d'::(':'::(':'::('s'::('q'::('r'::('t'::[])))))))));
+    m_inc = (('c'::('m'::('a'::('t'::('h'::[]))))) :: []); m_ret =
+    ('d'::('o'::('u'::('b'::('l'::('e'::[])))))) } :: ({ m_py =
+    ('c'::('b'::('r'::('t'::[])))); m_cpp =
+    ('s'::('t'::('d'::(':'::(':'::('c'::('b'::('r'::('t'::[])))))))));
+    m_inc = (('c'::('m'::('a'::('t'::('h'::[]))))) :: []); m_ret =
+    ('d'::('o'::('u'::('b'::('l'::('e'::[])))))) } :: ({ m_py =
+    ('h'::('y'::('p'::('o'::('t'::[]))))); m_cpp =
+    ('s'::('t'::('d'::(':'::(':'::('h'::('y'::('p'::('o'::('t'::[]))))))))));
+    m_inc = (('c'::('m'::('a'::('t'::('h'::[]))))) :: []); m_ret =
+    ('d'::('o'::('u'::('b'::('l'::('e'::[])))))) } :: ({ m_py =
+    ('e'::('r'::('f'::[]))); m_cpp =
+    ('s'::('t'::('d'::(':'::(':'::('e'::('r'::('f'::[])))))))); m_inc =
+    (('c'::('m'::('a'::('t'::('h'::[]))))) :: []); m_ret =
+    ('d'::('o'::('u'::('b'::('l'::('e'::[])))))) } :: ({ m_py =
+    ('e'::('r'::('f'::('c'::[])))); m_cpp =
+    ('s'::('t'::('d'::(':'::(':'::('e'::('r'::('f'::('c'::[])))))))));
+    m_inc = (('c'::('m'::('a'::('t'::('h'::[]))))) :: []); m_ret =
+    ('d'::('o'::('u'::('b'::('l'::('e'::[])))))) } :: ({ m_py =
+    ('t'::('g'::('a'::('m'::('m'::('a'::[])))))); m_cpp =
+    ('s'::('t'::('d'::(':'::(':'::('t'::('g'::('a'::('m'::('m'::('a'::[])))))))))));
+    m_inc = (('c'::('m'::('a'::('t'::('h'::[]))))) :: []); m_ret =
+    ('d'::('o'::('u'::('b'::('l'::('e'::[])))))) } :: ({ m_py =
+    ('l'::('g'::('a'::('m'::('m'::('a'::[])))))); m_cpp =
+    ('s'::('t'::('d'::(':'::(':'::('l'::('g'::('a'::('m'::('m'::('a'::[])))))))))));
+    m_inc = (('c'::('m'::('a'::('t'::('h'::[]))))) :: []); m_ret =
+    ('d'::('o'::('u'::('b'::('l'::('e'::[])))))) } :: ({ m_py =
+    ('c'::('e'::('i'::('l'::[])))); m_cpp =
+    ('s'::('t'::('d'::(':'::(':'::('c'::('e'::('i'::('l'::[])))))))));
+    m_inc = (('c'::('m'::('a'::('t'::('h'::[]))))) :: []); m_ret =
+    ('d'::('o'::('u'::('b'::('l'::('e'::[])))))) } :: ({ m_py =
+    ('f'::('l'::('o'::('o'::('r'::[]))))); m_cpp =
+    ('s'::('t'::('d'::(':'::(':'::('f'::('l'::('o'::('o'::('r'::[]))))))))));
+    m_inc = (('c'::('m'::('a'::('t'::('h'::[]))))) :: []); m_ret =
+    ('d'::('o'::('u'::('b'::('l'::('e'::[])))))) } :: ({ m_py =
+    ('f'::('m'::('o'::('d'::[])))); m_cpp =
+    ('s'::('t'::('d'::(':'::(':'::('f'::('m'::('o'::('d'::[])))))))));
+    m_inc = (('c'::('m'::('a'::('t'::('h'::[]))))) :: []); m_ret =
+    ('d'::('o'::('u'::('b'::('l'::('e'::[])))))) } :: ({ m_py =
+    ('t'::('r'::('u'::('n'::('c'::[]))))); m_cpp =
+    ('s'::('t'::('d'::(':'::(':'::('t'::('r'::('u'::('n'::('c'::[]))))))))));
+    m_inc = (('c'::('m'::('a'::('t'::('h'::[]))))) :: []); m_ret =
+    ('d'::('o'::('u'::('b'::('l'::('e'::[])))))) } :: ({ m_py =
+    ('r'::('o'::('u'::('n'::('d'::[]))))); m_cpp =
+    ('s'::('t'::('d'::(':'::(':'::('r'::('o'::('u'::('n'::('d'::[]))))))))));
+    m_inc = (('c'::('m'::('a'::('t'::('h'::[]))))) :: []); m_ret =
+    ('d'::('o'::('u'::('b'::('l'::('e'::[])))))) } :: ({ m_py =
+    ('r'::('i'::('n'::('t'::[])))); m_cpp =
+    ('s'::('t'::('d'::(':'::(':'::('r'::('i'::('n'::('t'::[])))))))));
+    m_inc = (('c'::('m'::('a'::('t'::('h'::[]))))) :: []); m_ret =
+    ('d'::('o'::('u'::('b'::('l'::('e'::[])))))) } :: ({ m_py =
+    ('n'::('e'::('a'::('r'::('b'::('y'::('i'::('n'::('t'::[])))))))));
+    m_cpp =
+    ('s'::('t'::('d'::(':'::(':'::('n'::('e'::('a'::('r'::('b'::('y'::('i'::('n'::('t'::[]))))))))))))));
+    m_inc = (('c'::('m'::('a'::('t'::('h'::[]))))) :: []); m_ret =
+    ('d'::('o'::('u'::('b'::('l'::('e'::[])))))) } :: ({ m_py =
+    ('r'::('e'::('m'::('a'::('i'::('n'::('d'::('e'::('r'::[])))))))));
+    m_cpp =
+    ('s'::('t'::('d'::(':'::(':'::('r'::('e'::('m'::('a'::('i'::('n'::('d'::('e'::('r'::[]))))))))))))));
+    m_inc = (('c'::('m'::('a'::('t'::('h'::[]))))) :: []); m_ret =
+    ('d'::('o'::('u'::('b'::('l'::('e'::[])))))) } :: ({ m_py =
+    ('r'::('e'::('m'::('q'::('u'::('o'::[])))))); m_cpp =
+    ('s'::('t'::('d'::(':'::(':'::('r'::('e'::('m'::('q'::('u'::('o'::[])))))))))));
+    m_inc = (('c'::('m'::('a'::('t'::('h'::[]))))) :: []); m_ret =
+    ('d'::('o'::('u'::('b'::('l'::('e'::[])))))) } :: ({ m_py =
+    ('c'::('o'::('p'::('y'::('s'::('i'::('g'::('n'::[])))))))); m_cpp =
+    ('s'::('t'::('d'::(':'::(':'::('c'::('o'::('p'::('y'::('s'::('i'::('g'::('n'::[])))))))))))));
+    m_inc = (('c'::('m'::('a'::('t'::('h'::[]))))) :: []); m_ret =
+    ('d'::('o'::('u'::('b'::('l'::('e'::[])))))) } :: ({ m_py =
+    ('n'::('a'::('n'::[]))); m_cpp =
+    ('s'::('t'::('d'::(':'::(':'::('n'::('a'::('n'::[])))))))); m_inc =
+    (('c'::('m'::('a'::('t'::('h'::[]))))) :: []); m_ret =
+    ('d'::('o'::('u'::('b'::('l'::('e'::[])))))) } :: ({ m_py =
+    ('n'::('e'::('x'::('t'::('a'::('f'::('t'::('e'::('r'::[])))))))));
+    m_cpp =
+    ('s'::('t'::('d'::(':'::(':'::('n'::('e'::('x'::('t'::('a'::('f'::('t'::('e'::('r'::[]))))))))))))));
+    m_inc = (('c'::('m'::('a'::('t'::('h'::[]))))) :: []); m_ret =
+    ('d'::('o'::('u'::('b'::('l'::('e'::[])))))) } :: ({ m_py =
+    ('n'::('e'::('x'::('t'::('t'::('o'::('w'::('a'::('r'::('d'::[]))))))))));
+    m_cpp =
+    ('s'::('t'::('d'::(':'::(':'::('n'::('e'::('x'::('t'::('t'::('o'::('w'::('a'::('r'::('d'::[])))))))))))))));
+    m_inc = (('c'::('m'::('a'::('t'::('h'::[]))))) :: []); m_ret =
+    ('d'::('o'::('u'::('b'::('l'::('e'::[])))))) } :: ({ m_py =
+    ('f'::('d'::('i'::('m'::[])))); m_cpp =
+    ('s'::('t'::('d'::(':'::(':'::('f'::('d'::('i'::('m'::[])))))))));
+    m_inc = (('c'::('m'::('a'::('t'::('h'::[]))))) :: []); m_ret =
+    ('d'::('o'::('u'::('b'::('l'::('e'::[])))))) } :: ({ m_py =
+    ('f'::('m'::('a'::('x'::[])))); m_cpp =
+    ('s'::('t'::('d'::(':'::(':'::('f'::('m'::('a'::('x'::[])))))))));
+    m_inc = (('c'::('m'::('a'::('t'::('h'::[]))))) :: []); m_ret =
+    ('d'::('o'::('u'::('b'::('l'::('e'::[])))))) } :: ({ m_py =
+    ('f'::('m'::('i'::('n'::[])))); m_cpp =
+    ('s'::('t'::('d'::(':'::(':'::('f'::('m'::('i'::('n'::[])))))))));
+    m_inc = (('c'::('m'::('a'::('t'::('h'::[]))))) :: []); m_ret =
+    ('d'::('o'::('u'::('b'::('l'::('e'::[])))))) } :: ({ m_py =
+    ('f'::('a'::('b'::('s'::[])))); m_cpp =
+    ('s'::('t'::('d'::(':'::(':'::('f'::('a'::('b'::('s'::[])))))))));
+    m_inc = (('c'::('m'::('a'::('t'::('h'::[]))))) :: []); m_ret =
+    ('d'::('o'::('u'::('b'::('l'::('e'::[])))))) } :: ({ m_py =
+    ('a'::('b'::('s'::[]))); m_cpp =
+    ('s'::('t'::('d'::(':'::(':'::('f'::('a'::('b'::('s'::[])))))))));
+    m_inc = (('c'::('m'::('a'::('t'::('h'::[]))))) :: []); m_ret =
+    ('d'::('o'::('u'::('b'::('l'::('e'::[])))))) } :: ({ m_py =
+    ('f'::('m'::('a'::[]))); m_cpp =
+    ('s'::('t'::('d'::(':'::(':'::('f'::('m'::('a'::[])))))))); m_inc =
+    (('c'::('m'::('a'::('t'::('h'::[]))))) :: []); m_ret =
+    ('d'::('o'::('u'::('b'::('l'::('e'::[])))))) } :: ({ m_py =
+    ('b'::('u'::('i'::('l'::('t'::('i'::('n'::('s'::('.'::('a'::('b'::('s'::[]))))))))))));
+    m_cpp = ('s'::('t'::('d'::(':'::(':'::('a'::('b'::('s'::[]))))))));
+    m_inc = (('c'::('m'::('a'::('t'::('h'::[]))))) :: []); m_ret =
+    ('d'::('o'::('u'::('b'::('l'::('e'::[])))))) } :: ({ m_py =
+    ('b'::('u'::('i'::('l'::('t'::('i'::('n'::('s'::('.'::('p'::('o'::('w'::[]))))))))))));
+    m_cpp = ('s'::('t'::('d'::(':'::(':'::('p'::('o'::('w'::[]))))))));
+    m_inc = (('c'::('m'::('a'::('t'::('h'::[]))))) :: []); m_ret =
+    ('d'::('o'::('u'::('b'::('l'::('e'::[])))))) } :: ({ m_py =
+    ('b'::('u'::('i'::('l'::('t'::('i'::('n'::('s'::('.'::('r'::('o'::('u'::('n'::('d'::[]))))))))))))));
+    m_cpp =
+    ('s'::('t'::('d'::(':'::(':'::('r'::('o'::('u'::('n'::('d'::[]))))))))));
+    m_inc = (('c'::('m'::('a'::('t'::('h'::[]))))) :: []); m_ret =
+    ('d'::('o'::('u'::('b'::('l'::('e'::[])))))) } :: []))))))))))))))))))))))))))))))))))))))))))))))))))))))
 
 (** val module_names : char list list **)
 
 let module_names =
-  []
+  ('a'::('s'::('t'::[]))) :: (('n'::('a'::('m'::('e'::('d'::('t'::('u'::('p'::('l'::('e'::[])))))))))) :: (('F'::('u'::('n'::('c'::('t'::('i'::('o'::('n'::('A'::('S'::('T'::[]))))))))))) :: (('f'::('i'::('n'::('d'::('_'::('k'::('n'::('o'::('w'::('n'::('_'::('f'::('u'::('n'::('c'::('t'::('i'::('o'::('n'::('s'::[])))))))))))))))))))) :: (('a'::('d'::('d'::('_'::('f'::('u'::('n'::('c'::('t'::('i'::('o'::('n'::('_'::('m'::('a'::('p'::('p'::('i'::('n'::('g'::[])))))))))))))))))))) :: (('f'::('u'::('n'::('c'::('t'::('i'::('o'::('n'::('s'::('_'::('t'::('o'::('_'::('r'::('e'::('p'::('l'::('a'::('c'::('e'::[])))))))))))))))))))) :: (('c'::('p'::('p'::('_'::('f'::('u'::('n'::('c'::('t'::('i'::('o'::('n'::[])))))))))))) :: []))))))
 
 (** val builtin_names : (char list * char list) list **)
 
 let builtin_names =
-  []
+  (('A'::('r'::('i'::('t'::('h'::('m'::('e'::('t'::('i'::('c'::('E'::('r'::('r'::('o'::('r'::[]))))))))))))))),
+    ('b'::('u'::('i'::('l'::('t'::('i'::('n'::('s'::[]))))))))) :: ((('A'::('s'::('s'::('e'::('r'::('t'::('i'::('o'::('n'::('E'::('r'::('r'::('o'::('r'::[])))))))))))))),
+    ('b'::('u'::('i'::('l'::('t'::('i'::('n'::('s'::[]))))))))) :: ((('A'::('t'::('t'::('r'::('i'::('b'::('u'::('t'::('e'::('E'::('r'::('r'::('o'::('r'::[])))))))))))))),
+    ('b'::('u'::('i'::('l'::('t'::('i'::('n'::('s'::[]))))))))) :: ((('B'::('a'::('s'::('e'::('E'::('x'::('c'::('e'::('p'::('t'::('i'::('o'::('n'::[]))))))))))))),
+    ('b'::('u'::('i'::('l'::('t'::('i'::('n'::('s'::[]))))))))) :: ((('B'::('a'::('s'::('e'::('E'::('x'::('c'::('e'::('p'::('t'::('i'::('o'::('n'::('G'::('r'::('o'::('u'::('p'::[])))))))))))))))))),
+    ('b'::('u'::('i'::('l'::('t'::('i'::('n'::('s'::[]))))))))) :: ((('B'::('l'::('o'::('c'::('k'::('i'::('n'::('g'::('I'::('O'::('E'::('r'::('r'::('o'::('r'::[]))))))))))))))),
+    ('b'::('u'::('i'::('l'::('t'::('i'::('n'::('s'::[]))))))))) :: ((('B'::('r'::('o'::('k'::('e'::('n'::('P'::('i'::('p'::('e'::('E'::('r'::('r'::('o'::('r'::[]))))))))))))))),
+    ('b'::('u'::('i'::('l'::('t'::('i'::('n'::('s'::[]))))))))) :: ((('B'::('u'::('f'::('f'::('e'::('r'::('E'::('r'::('r'::('o'::('r'::[]))))))))))),
+    ('b'::('u'::('i'::('l'::('t'::('i'::('n'::('s'::[]))))))))) :: ((('B'::('y'::('t'::('e'::('s'::('W'::('a'::('r'::('n'::('i'::('n'::('g'::[])))))))))))),
+    ('b'::('u'::('i'::('l'::('t'::('i'::('n'::('s'::[]))))))))) :: ((('C'::('h'::('i'::('l'::('d'::('P'::('r'::('o'::('c'::('e'::('s'::('s'::('E'::('r'::('r'::('o'::('r'::[]))))))))))))))))),
+    ('b'::('u'::('i'::('l'::('t'::('i'::('n'::('s'::[]))))))))) :: ((('C'::('o'::('n'::('n'::('e'::('c'::('t'::('i'::('o'::('n'::('A'::('b'::('o'::('r'::('t'::('e'::('d'::('E'::('r'::('r'::('o'::('r'::[])))))))))))))))))))))),
+    ('b'::('u'::('i'::('l'::('t'::('i'::('n'::('s'::[]))))))))) :: ((('C'::('o'::('n'::('n'::('e'::('c'::('t'::('i'::('o'::('n'::('E'::('r'::('r'::('o'::('r'::[]))))))))))))))),
+    ('b'::('u'::('i'::('l'::('t'::('i'::('n'::('s'::[]))))))))) :: ((('C'::('o'::('n'::('n'::('e'::('c'::('t'::('i'::('o'::('n'::('R'::('e'::('f'::('u'::('s'::('e'::('d'::('E'::('r'::('r'::('o'::('r'::[])))))))))))))))))))))),
+    ('b'::('u'::('i'::('l'::('t'::('i'::('n'::('s'::[]))))))))) :: ((('C'::('o'::('n'::('n'::('e'::('c'::('t'::('i'::('o'::('n'::('R'::('e'::('s'::('e'::('t'::('E'::('r'::('r'::('o'::('r'::[])))))))))))))))))))),
+    ('b'::('u'::('i'::('l'::('t'::('i'::('n'::('s'::[]))))))))) :: ((('D'::('e'::('p'::('r'::('e'::('c'::('a'::('t'::('i'::('o'::('n'::('W'::('a'::('r'::('n'::('i'::('n'::('g'::[])))))))))))))))))),
+    ('b'::('u'::('i'::('l'::('t'::('i'::('n'::('s'::[]))))))))) :: ((('E'::('O'::('F'::('E'::('r'::('r'::('o'::('r'::[])))))))),
+    ('b'::('u'::('i'::('l'::('t'::('i'::('n'::('s'::[]))))))))) :: ((('E'::('l'::('l'::('i'::('p'::('s'::('i'::('s'::[])))))))),
+    ('-'::[])) :: ((('E'::('n'::('c'::('o'::('d'::('i'::('n'::('g'::('W'::('a'::('r'::('n'::('i'::('n'::('g'::[]))))))))))))))),
+    ('b'::('u'::('i'::('l'::('t'::('i'::('n'::('s'::[]))))))))) :: ((('E'::('n'::('v'::('i'::('r'::('o'::('n'::('m'::('e'::('n'::('t'::('E'::('r'::('r'::('o'::('r'::[])))))))))))))))),
+    ('b'::('u'::('i'::('l'::('t'::('i'::('n'::('s'::[]))))))))) :: ((('E'::('x'::('c'::('e'::('p'::('t'::('i'::('o'::('n'::[]))))))))),
+    ('b'::('u'::('i'::('l'::('t'::('i'::('n'::('s'::[]))))))))) :: ((('E'::('x'::('c'::('e'::('p'::('t'::('i'::('o'::('n'::('G'::('r'::('o'::('u'::('p'::[])))))))))))))),
+    ('b'::('u'::('i'::('l'::('t'::('i'::('n'::('s'::[]))))))))) :: ((('F'::('a'::('l'::('s'::('e'::[]))))),
+    ('-'::[])) :: ((('F'::('i'::('l'::('e'::('E'::('x'::('i'::('s'::('t'::('s'::('E'::('r'::('r'::('o'::('r'::[]))))))))))))))),
+    ('b'::('u'::('i'::('l'::('t'::('i'::('n'::('s'::[]))))))))) :: ((('F'::('i'::('l'::('e'::('N'::('o'::('t'::('F'::('o'::('u'::('n'::('d'::('E'::('r'::('r'::('o'::('r'::[]))))))))))))))))),
+    ('b'::('u'::('i'::('l'::('t'::('i'::('n'::('s'::[]))))))))) :: ((('F'::('l'::('o'::('a'::('t'::('i'::('n'::('g'::('P'::('o'::('i'::('n'::('t'::('E'::('r'::('r'::('o'::('r'::[])))))))))))))))))),
+    ('b'::('u'::('i'::('l'::('t'::('i'::('n'::('s'::[]))))))))) :: ((('F'::('u'::('t'::('u'::('r'::('e'::('W'::('a'::('r'::('n'::('i'::('n'::('g'::[]))))))))))))),
+    ('b'::('u'::('i'::('l'::('t'::('i'::('n'::('s'::[]))))))))) :: ((('G'::('e'::('n'::('e'::('r'::('a'::('t'::('o'::('r'::('E'::('x'::('i'::('t'::[]))))))))))))),
+    ('b'::('u'::('i'::('l'::('t'::('i'::('n'::('s'::[]))))))))) :: ((('I'::('O'::('E'::('r'::('r'::('o'::('r'::[]))))))),
+    ('b'::('u'::('i'::('l'::('t'::('i'::('n'::('s'::[]))))))))) :: ((('I'::('m'::('p'::('o'::('r'::('t'::('E'::('r'::('r'::('o'::('r'::[]))))))))))),
+    ('b'::('u'::('i'::('l'::('t'::('i'::('n'::('s'::[]))))))))) :: ((('I'::('m'::('p'::('o'::('r'::('t'::('W'::('a'::('r'::('n'::('i'::('n'::('g'::[]))))))))))))),
+    ('b'::('u'::('i'::('l'::('t'::('i'::('n'::('s'::[]))))))))) :: ((('I'::('n'::('d'::('e'::('n'::('t'::('a'::('t'::('i'::('o'::('n'::('E'::('r'::('r'::('o'::('r'::[])))))))))))))))),
+    ('b'::('u'::('i'::('l'::('t'::('i'::('n'::('s'::[]))))))))) :: ((('I'::('n'::('d'::('e'::('x'::('E'::('r'::('r'::('o'::('r'::[])))))))))),
+    ('b'::('u'::('i'::('l'::('t'::('i'::('n'::('s'::[]))))))))) :: ((('I'::('n'::('t'::('e'::('r'::('r'::('u'::('p'::('t'::('e'::('d'::('E'::('r'::('r'::('o'::('r'::[])))))))))))))))),
+    ('b'::('u'::('i'::('l'::('t'::('i'::('n'::('s'::[]))))))))) :: ((('I'::('s'::('A'::('D'::('i'::('r'::('e'::('c'::('t'::('o'::('r'::('y'::('E'::('r'::('r'::('o'::('r'::[]))))))))))))))))),
+    ('b'::('u'::('i'::('l'::('t'::('i'::('n'::('s'::[]))))))))) :: ((('K'::('e'::('y'::('E'::('r'::('r'::('o'::('r'::[])))))))),
+    ('b'::('u'::('i'::('l'::('t'::('i'::('n'::('s'::[]))))))))) :: ((('K'::('e'::('y'::('b'::('o'::('a'::('r'::('d'::('I'::('n'::('t'::('e'::('r'::('r'::('u'::('p'::('t'::[]))))))))))))))))),
+    ('b'::('u'::('i'::('l'::('t'::('i'::('n'::('s'::[]))))))))) :: ((('L'::('o'::('o'::('k'::('u'::('p'::('E'::('r'::('r'::('o'::('r'::[]))))))))))),
+    ('b'::('u'::('i'::('l'::('t'::('i'::('n'::('s'::[]))))))))) :: ((('M'::('e'::('m'::('o'::('r'::('y'::('E'::('r'::('r'::('o'::('r'::[]))))))))))),
+    ('b'::('u'::('i'::('l'::('t'::('i'::('n'::('s'::[]))))))))) :: ((('M'::('o'::('d'::('u'::('l'::('e'::('N'::('o'::('t'::('F'::('o'::('u'::('n'::('d'::('E'::('r'::('r'::('o'::('r'::[]))))))))))))))))))),
+    ('b'::('u'::('i'::('l'::('t'::('i'::('n'::('s'::[]))))))))) :: ((('N'::('a'::('m'::('e'::('E'::('r'::('r'::('o'::('r'::[]))))))))),
+    ('b'::('u'::('i'::('l'::('t'::('i'::('n'::('s'::[]))))))))) :: ((('N'::('o'::('n'::('e'::[])))),
+    ('-'::[])) :: ((('N'::('o'::('t'::('A'::('D'::('i'::('r'::('e'::('c'::('t'::('o'::('r'::('y'::('E'::('r'::('r'::('o'::('r'::[])))))))))))))))))),
+    ('b'::('u'::('i'::('l'::('t'::('i'::('n'::('s'::[]))))))))) :: ((('N'::('o'::('t'::('I'::('m'::('p'::('l'::('e'::('m'::('e'::('n'::('t'::('e'::('d'::[])))))))))))))),
+    ('-'::[])) :: ((('N'::('o'::('t'::('I'::('m'::('p'::('l'::('e'::('m'::('e'::('n'::('t'::('e'::('d'::('E'::('r'::('r'::('o'::('r'::[]))))))))))))))))))),
+    ('b'::('u'::('i'::('l'::('t'::('i'::('n'::('s'::[]))))))))) :: ((('O'::('S'::('E'::('r'::('r'::('o'::('r'::[]))))))),
+    ('b'::('u'::('i'::('l'::('t'::('i'::('n'::('s'::[]))))))))) :: ((('O'::('v'::('e'::('r'::('f'::('l'::('o'::('w'::('E'::('r'::('r'::('o'::('r'::[]))))))))))))),
+    ('b'::('u'::('i'::('l'::('t'::('i'::('n'::('s'::[]))))))))) :: ((('P'::('e'::('n'::('d'::('i'::('n'::('g'::('D'::('e'::('p'::('r'::('e'::('c'::('a'::('t'::('i'::('o'::('n'::('W'::('a'::('r'::('n'::('i'::('n'::('g'::[]))))))))))))))))))))))))),
+    ('b'::('u'::('i'::('l'::('t'::('i'::('n'::('s'::[]))))))))) :: ((('P'::('e'::('r'::('m'::('i'::('s'::('s'::('i'::('o'::('n'::('E'::('r'::('r'::('o'::('r'::[]))))))))))))))),
+    ('b'::('u'::('i'::('l'::('t'::('i'::('n'::('s'::[]))))))))) :: ((('P'::('r'::('o'::('c'::('e'::('s'::('s'::('L'::('o'::('o'::('k'::('u'::('p'::('E'::('r'::('r'::('o'::('r'::[])))))))))))))))))),
+    ('b'::('u'::('i'::('l'::('t'::('i'::('n'::('s'::[]))))))))) :: ((('R'::('e'::('c'::('u'::('r'::('s'::('i'::('o'::('n'::('E'::('r'::('r'::('o'::('r'::[])))))))))))))),
+    ('b'::('u'::('i'::('l'::('t'::('i'::('n'::('s'::[]))))))))) :: ((('R'::('e'::('f'::('e'::('r'::('e'::('n'::('c'::('e'::('E'::('r'::('r'::('o'::('r'::[])))))))))))))),
+    ('b'::('u'::('i'::('l'::('t'::('i'::('n'::('s'::[]))))))))) :: ((('R'::('e'::('s'::('o'::('u'::('r'::('c'::('e'::('W'::('a'::('r'::('n'::('i'::('n'::('g'::[]))))))))))))))),
+    ('b'::('u'::('i'::('l'::('t'::('i'::('n'::('s'::[]))))))))) :: ((('R'::('u'::('n'::('t'::('i'::('m'::('e'::('E'::('r'::('r'::('o'::('r'::[])))))))))))),
+    ('b'::('u'::('i'::('l'::('t'::('i'::('n'::('s'::[]))))))))) :: ((('R'::('u'::('n'::('t'::('i'::('m'::('e'::('W'::('a'::('r'::('n'::('i'::('n'::('g'::[])))))))))))))),
+    ('b'::('u'::('i'::('l'::('t'::('i'::('n'::('s'::[]))))))))) :: ((('S'::('t'::('o'::('p'::('A'::('s'::('y'::('n'::('c'::('I'::('t'::('e'::('r'::('a'::('t'::('i'::('o'::('n'::[])))))))))))))))))),
+    ('b'::('u'::('i'::('l'::('t'::('i'::('n'::('s'::[]))))))))) :: ((('S'::('t'::('o'::('p'::('I'::('t'::('e'::('r'::('a'::('t'::('i'::('o'::('n'::[]))))))))))))),
+    ('b'::('u'::('i'::('l'::('t'::('i'::('n'::('s'::[]))))))))) :: ((('S'::('y'::('n'::('t'::('a'::('x'::('E'::('r'::('r'::('o'::('r'::[]))))))))))),
+    ('b'::('u'::('i'::('l'::('t'::('i'::('n'::('s'::[]))))))))) :: ((('S'::('y'::('n'::('t'::('a'::('x'::('W'::('a'::('r'::('n'::('i'::('n'::('g'::[]))))))))))))),
+    ('b'::('u'::('i'::('l'::('t'::('i'::('n'::('s'::[]))))))))) :: ((('S'::('y'::('s'::('t'::('e'::('m'::('E'::('r'::('r'::('o'::('r'::[]))))))))))),
+    ('b'::('u'::('i'::('l'::('t'::('i'::('n'::('s'::[]))))))))) :: ((('S'::('y'::('s'::('t'::('e'::('m'::('E'::('x'::('i'::('t'::[])))))))))),
+    ('b'::('u'::('i'::('l'::('t'::('i'::('n'::('s'::[]))))))))) :: ((('T'::('a'::('b'::('E'::('r'::('r'::('o'::('r'::[])))))))),
+    ('b'::('u'::('i'::('l'::('t'::('i'::('n'::('s'::[]))))))))) :: ((('T'::('i'::('m'::('e'::('o'::('u'::('t'::('E'::('r'::('r'::('o'::('r'::[])))))))))))),
+    ('b'::('u'::('i'::('l'::('t'::('i'::('n'::('s'::[]))))))))) :: ((('T'::('r'::('u'::('e'::[])))),
+    ('-'::[])) :: ((('T'::('y'::('p'::('e'::('E'::('r'::('r'::('o'::('r'::[]))))))))),
+    ('b'::('u'::('i'::('l'::('t'::('i'::('n'::('s'::[]))))))))) :: ((('U'::('n'::('b'::('o'::('u'::('n'::('d'::('L'::('o'::('c'::('a'::('l'::('E'::('r'::('r'::('o'::('r'::[]))))))))))))))))),
+    ('b'::('u'::('i'::('l'::('t'::('i'::('n'::('s'::[]))))))))) :: ((('U'::('n'::('i'::('c'::('o'::('d'::('e'::('D'::('e'::('c'::('o'::('d'::('e'::('E'::('r'::('r'::('o'::('r'::[])))))))))))))))))),
+    ('b'::('u'::('i'::('l'::('t'::('i'::('n'::('s'::[]))))))))) :: ((('U'::('n'::('i'::('c'::('o'::('d'::('e'::('E'::('n'::('c'::('o'::('d'::('e'::('E'::('r'::('r'::('o'::('r'::[])))))))))))))))))),
+    ('b'::('u'::('i'::('l'::('t'::('i'::('n'::('s'::[]))))))))) :: ((('U'::('n'::('i'::('c'::('o'::('d'::('e'::('E'::('r'::('r'::('o'::('r'::[])))))))))))),
+    ('b'::('u'::('i'::('l'::('t'::('i'::('n'::('s'::[]))))))))) :: ((('U'::('n'::('i'::('c'::('o'::('d'::('e'::('T'::('r'::('a'::('n'::('s'::('l'::('a'::('t'::('e'::('E'::('r'::('r'::('o'::('r'::[]))))))))))))))))))))),
+    ('b'::('u'::('i'::('l'::('t'::('i'::('n'::('s'::[]))))))))) :: ((('U'::('n'::('i'::('c'::('o'::('d'::('e'::('W'::('a'::('r'::('n'::('i'::('n'::('g'::[])))))))))))))),
+    ('b'::('u'::('i'::('l'::('t'::('i'::('n'::('s'::[]))))))))) :: ((('U'::('s'::('e'::('r'::('W'::('a'::('r'::('n'::('i'::('n'::('g'::[]))))))))))),
+    ('b'::('u'::('i'::('l'::('t'::('i'::('n'::('s'::[]))))))))) :: ((('V'::('a'::('l'::('u'::('e'::('E'::('r'::('r'::('o'::('r'::[])))))))))),
+    ('b'::('u'::('i'::('l'::('t'::('i'::('n'::('s'::[]))))))))) :: ((('W'::('a'::('r'::('n'::('i'::('n'::('g'::[]))))))),
+    ('b'::('u'::('i'::('l'::('t'::('i'::('n'::('s'::[]))))))))) :: ((('Z'::('e'::('r'::('o'::('D'::('i'::('v'::('i'::('s'::('i'::('o'::('n'::('E'::('r'::('r'::('o'::('r'::[]))))))))))))))))),
+    ('b'::('u'::('i'::('l'::('t'::('i'::('n'::('s'::[]))))))))) :: ((('_'::('_'::('b'::('u'::('i'::('l'::('d'::('_'::('c'::('l'::('a'::('s'::('s'::('_'::('_'::[]))))))))))))))),
+    ('b'::('u'::('i'::('l'::('t'::('i'::('n'::('s'::[]))))))))) :: ((('_'::('_'::('d'::('e'::('b'::('u'::('g'::('_'::('_'::[]))))))))),
+    ('-'::[])) :: ((('_'::('_'::('d'::('o'::('c'::('_'::('_'::[]))))))),
+    ('-'::[])) :: ((('_'::('_'::('i'::('m'::('p'::('o'::('r'::('t'::('_'::('_'::[])))))))))),
+    ('b'::('u'::('i'::('l'::('t'::('i'::('n'::('s'::[]))))))))) :: ((('_'::('_'::('l'::('o'::('a'::('d'::('e'::('r'::('_'::('_'::[])))))))))),
+    ('_'::('f'::('r'::('o'::('z'::('e'::('n'::('_'::('i'::('m'::('p'::('o'::('r'::('t'::('l'::('i'::('b'::[])))))))))))))))))) :: ((('_'::('_'::('n'::('a'::('m'::('e'::('_'::('_'::[])))))))),
+    ('-'::[])) :: ((('_'::('_'::('p'::('a'::('c'::('k'::('a'::('g'::('e'::('_'::('_'::[]))))))))))),
+    ('-'::[])) :: ((('_'::('_'::('s'::('p'::('e'::('c'::('_'::('_'::[])))))))),
+    ('_'::('f'::('r'::('o'::('z'::('e'::('n'::('_'::('i'::('m'::('p'::('o'::('r'::('t'::('l'::('i'::('b'::[])))))))))))))))))) :: ((('a'::('b'::('s'::[]))),
+    ('b'::('u'::('i'::('l'::('t'::('i'::('n'::('s'::[]))))))))) :: ((('a'::('i'::('t'::('e'::('r'::[]))))),
+    ('b'::('u'::('i'::('l'::('t'::('i'::('n'::('s'::[]))))))))) :: ((('a'::('l'::('l'::[]))),
+    ('b'::('u'::('i'::('l'::('t'::('i'::('n'::('s'::[]))))))))) :: ((('a'::('n'::('e'::('x'::('t'::[]))))),
+    ('b'::('u'::('i'::('l'::('t'::('i'::('n'::('s'::[]))))))))) :: ((('a'::('n'::('y'::[]))),
+    ('b'::('u'::('i'::('l'::('t'::('i'::('n'::('s'::[]))))))))) :: ((('a'::('s'::('c'::('i'::('i'::[]))))),
+    ('b'::('u'::('i'::('l'::('t'::('i'::('n'::('s'::[]))))))))) :: ((('b'::('i'::('n'::[]))),
+    ('b'::('u'::('i'::('l'::('t'::('i'::('n'::('s'::[]))))))))) :: ((('b'::('o'::('o'::('l'::[])))),
+    ('b'::('u'::('i'::('l'::('t'::('i'::('n'::('s'::[]))))))))) :: ((('b'::('r'::('e'::('a'::('k'::('p'::('o'::('i'::('n'::('t'::[])))))))))),
+    ('b'::('u'::('i'::('l'::('t'::('i'::('n'::('s'::[]))))))))) :: ((('b'::('y'::('t'::('e'::('a'::('r'::('r'::('a'::('y'::[]))))))))),
+    ('b'::('u'::('i'::('l'::('t'::('i'::('n'::('s'::[]))))))))) :: ((('b'::('y'::('t'::('e'::('s'::[]))))),
+    ('b'::('u'::('i'::('l'::('t'::('i'::('n'::('s'::[]))))))))) :: ((('c'::('a'::('l'::('l'::('a'::('b'::('l'::('e'::[])))))))),
+    ('b'::('u'::('i'::('l'::('t'::('i'::('n'::('s'::[]))))))))) :: ((('c'::('h'::('r'::[]))),
+    ('b'::('u'::('i'::('l'::('t'::('i'::('n'::('s'::[]))))))))) :: ((('c'::('l'::('a'::('s'::('s'::('m'::('e'::('t'::('h'::('o'::('d'::[]))))))))))),
+    ('b'::('u'::('i'::('l'::('t'::('i'::('n'::('s'::[]))))))))) :: ((('c'::('o'::('m'::('p'::('i'::('l'::('e'::[]))))))),
+    ('b'::('u'::('i'::('l'::('t'::('i'::('n'::('s'::[]))))))))) :: ((('c'::('o'::('m'::('p'::('l'::('e'::('x'::[]))))))),
+    ('b'::('u'::('i'::('l'::('t'::('i'::('n'::('s'::[]))))))))) :: ((('c'::('o'::('p'::('y'::('r'::('i'::('g'::('h'::('t'::[]))))))))),
+    ('_'::('s'::('i'::('t'::('e'::('b'::('u'::('i'::('l'::('t'::('i'::('n'::('s'::[])))))))))))))) :: ((('c'::('r'::('e'::('d'::('i'::('t'::('s'::[]))))))),
+    ('_'::('s'::('i'::('t'::('e'::('b'::('u'::('i'::('l'::('t'::('i'::('n'::('s'::[])))))))))))))) :: ((('d'::('e'::('l'::('a'::('t'::('t'::('r'::[]))))))),
+    ('b'::('u'::('i'::('l'::('t'::('i'::('n'::('s'::[]))))))))) :: ((('d'::('i'::('c'::('t'::[])))),
+    ('b'::('u'::('i'::('l'::('t'::('i'::('n'::('s'::[]))))))))) :: ((('d'::('i'::('r'::[]))),
+    ('b'::('u'::('i'::('l'::('t'::('i'::('n'::('s'::[]))))))))) :: ((('d'::('i'::('v'::('m'::('o'::('d'::[])))))),
+    ('b'::('u'::('i'::('l'::('t'::('i'::('n'::('s'::[]))))))))) :: ((('e'::('n'::('u'::('m'::('e'::('r'::('a'::('t'::('e'::[]))))))))),
+    ('b'::('u'::('i'::('l'::('t'::('i'::('n'::('s'::[]))))))))) :: ((('e'::('v'::('a'::('l'::[])))),
+    ('b'::('u'::('i'::('l'::('t'::('i'::('n'::('s'::[]))))))))) :: ((('e'::('x'::('e'::('c'::[])))),
+    ('b'::('u'::('i'::('l'::('t'::('i'::('n'::('s'::[]))))))))) :: ((('e'::('x'::('i'::('t'::[])))),
+    ('_'::('s'::('i'::('t'::('e'::('b'::('u'::('i'::('l'::('t'::('i'::('n'::('s'::[])))))))))))))) :: ((('f'::('i'::('l'::('t'::('e'::('r'::[])))))),
+    ('b'::('u'::('i'::('l'::('t'::('i'::('n'::('s'::[]))))))))) :: ((('f'::('l'::('o'::('a'::('t'::[]))))),
+    ('b'::('u'::('i'::('l'::('t'::('i'::('n'::('s'::[]))))))))) :: ((('f'::('o'::('r'::('m'::('a'::('t'::[])))))),
+    ('b'::('u'::('i'::('l'::('t'::('i'::('n'::('s'::[]))))))))) :: ((('f'::('r'::('o'::('z'::('e'::('n'::('s'::('e'::('t'::[]))))))))),
+    ('b'::('u'::('i'::('l'::('t'::('i'::('n'::('s'::[]))))))))) :: ((('g'::('e'::('t'::('a'::('t'::('t'::('r'::[]))))))),
+    ('b'::('u'::('i'::('l'::('t'::('i'::('n'::('s'::[]))))))))) :: ((('g'::('l'::('o'::('b'::('a'::('l'::('s'::[]))))))),
+    ('b'::('u'::('i'::('l'::('t'::('i'::('n'::('s'::[]))))))))) :: ((('h'::('a'::('s'::('a'::('t'::('t'::('r'::[]))))))),
+    ('b'::('u'::('i'::('l'::('t'::('i'::('n'::('s'::[]))))))))) :: ((('h'::('a'::('s'::('h'::[])))),
+    ('b'::('u'::('i'::('l'::('t'::('i'::('n'::('s'::[]))))))))) :: ((('h'::('e'::('l'::('p'::[])))),
+    ('_'::('s'::('i'::('t'::('e'::('b'::('u'::('i'::('l'::('t'::('i'::('n'::('s'::[])))))))))))))) :: ((('h'::('e'::('x'::[]))),
+    ('b'::('u'::('i'::('l'::('t'::('i'::('n'::('s'::[]))))))))) :: ((('i'::('d'::[])),
+    ('b'::('u'::('i'::('l'::('t'::('i'::('n'::('s'::[]))))))))) :: ((('i'::('n'::('p'::('u'::('t'::[]))))),
+    ('b'::('u'::('i'::('l'::('t'::('i'::('n'::('s'::[]))))))))) :: ((('i'::('n'::('t'::[]))),
+    ('b'::('u'::('i'::('l'::('t'::('i'::('n'::('s'::[]))))))))) :: ((('i'::('s'::('i'::('n'::('s'::('t'::('a'::('n'::('c'::('e'::[])))))))))),
+    ('b'::('u'::('i'::('l'::('t'::('i'::('n'::('s'::[]))))))))) :: ((('i'::('s'::('s'::('u'::('b'::('c'::('l'::('a'::('s'::('s'::[])))))))))),
+    ('b'::('u'::('i'::('l'::('t'::('i'::('n'::('s'::[]))))))))) :: ((('i'::('t'::('e'::('r'::[])))),
+    ('b'::('u'::('i'::('l'::('t'::('i'::('n'::('s'::[]))))))))) :: ((('l'::('e'::('n'::[]))),
+    ('b'::('u'::('i'::('l'::('t'::('i'::('n'::('s'::[]))))))))) :: ((('l'::('i'::('c'::('e'::('n'::('s'::('e'::[]))))))),
+    ('_'::('s'::('i'::('t'::('e'::('b'::('u'::('i'::('l'::('t'::('i'::('n'::('s'::[])))))))))))))) :: ((('l'::('i'::('s'::('t'::[])))),
+    ('b'::('u'::('i'::('l'::('t'::('i'::('n'::('s'::[]))))))))) :: ((('l'::('o'::('c'::('a'::('l'::('s'::[])))))),
+    ('b'::('u'::('i'::('l'::('t'::('i'::('n'::('s'::[]))))))))) :: ((('m'::('a'::('p'::[]))),
+    ('b'::('u'::('i'::('l'::('t'::('i'::('n'::('s'::[]))))))))) :: ((('m'::('a'::('x'::[]))),
+    ('b'::('u'::('i'::('l'::('t'::('i'::('n'::('s'::[]))))))))) :: ((('m'::('e'::('m'::('o'::('r'::('y'::('v'::('i'::('e'::('w'::[])))))))))),
+    ('b'::('u'::('i'::('l'::('t'::('i'::('n'::('s'::[]))))))))) :: ((('m'::('i'::('n'::[]))),
+    ('b'::('u'::('i'::('l'::('t'::('i'::('n'::('s'::[]))))))))) :: ((('n'::('e'::('x'::('t'::[])))),
+    ('b'::('u'::('i'::('l'::('t'::('i'::('n'::('s'::[]))))))))) :: ((('o'::('b'::('j'::('e'::('c'::('t'::[])))))),
+    ('b'::('u'::('i'::('l'::('t'::('i'::('n'::('s'::[]))))))))) :: ((('o'::('c'::('t'::[]))),
+    ('b'::('u'::('i'::('l'::('t'::('i'::('n'::('s'::[]))))))))) :: ((('o'::('p'::('e'::('n'::[])))),
+    ('_'::('i'::('o'::[])))) :: ((('o'::('r'::('d'::[]))),
+    ('b'::('u'::('i'::('l'::('t'::('i'::('n'::('s'::[]))))))))) :: ((('p'::('o'::('w'::[]))),
+    ('b'::('u'::('i'::('l'::('t'::('i'::('n'::('s'::[]))))))))) :: ((('p'::('r'::('i'::('n'::('t'::[]))))),
+    ('b'::('u'::('i'::('l'::('t'::('i'::('n'::('s'::[]))))))))) :: ((('p'::('r'::('o'::('p'::('e'::('r'::('t'::('y'::[])))))))),
+    ('b'::('u'::('i'::('l'::('t'::('i'::('n'::('s'::[]))))))))) :: ((('q'::('u'::('i'::('t'::[])))),
+    ('_'::('s'::('i'::('t'::('e'::('b'::('u'::('i'::('l'::('t'::('i'::('n'::('s'::[])))))))))))))) :: ((('r'::('a'::('n'::('g'::('e'::[]))))),
+    ('b'::('u'::('i'::('l'::('t'::('i'::('n'::('s'::[]))))))))) :: ((('r'::('e'::('p'::('r'::[])))),
+    ('b'::('u'::('i'::('l'::('t'::('i'::('n'::('s'::[]))))))))) :: ((('r'::('e'::('v'::('e'::('r'::('s'::('e'::('d'::[])))))))),
+    ('b'::('u'::('i'::('l'::('t'::('i'::('n'::('s'::[]))))))))) :: ((('r'::('o'::('u'::('n'::('d'::[]))))),
+    ('b'::('u'::('i'::('l'::('t'::('i'::('n'::('s'::[]))))))))) :: ((('s'::('e'::('t'::[]))),
+    ('b'::('u'::('i'::('l'::('t'::('i'::('n'::('s'::[]))))))))) :: ((('s'::('e'::('t'::('a'::('t'::('t'::('r'::[]))))))),
+    ('b'::('u'::('i'::('l'::('t'::('i'::('n'::('s'::[]))))))))) :: ((('s'::('l'::('i'::('c'::('e'::[]))))),
+    ('b'::('u'::('i'::('l'::('t'::('i'::('n'::('s'::[]))))))))) :: ((('s'::('o'::('r'::('t'::('e'::('d'::[])))))),
+    ('b'::('u'::('i'::('l'::('t'::('i'::('n'::('s'::[]))))))))) :: ((('s'::('t'::('a'::('t'::('i'::('c'::('m'::('e'::('t'::('h'::('o'::('d'::[])))))))))))),
+    ('b'::('u'::('i'::('l'::('t'::('i'::('n'::('s'::[]))))))))) :: ((('s'::('t'::('r'::[]))),
+    ('b'::('u'::('i'::('l'::('t'::('i'::('n'::('s'::[]))))))))) :: ((('s'::('u'::('m'::[]))),
+    ('b'::('u'::('i'::('l'::('t'::('i'::('n'::('s'::[]))))))))) :: ((('s'::('u'::('p'::('e'::('r'::[]))))),
+    ('b'::('u'::('i'::('l'::('t'::('i'::('n'::('s'::[]))))))))) :: ((('t'::('u'::('p'::('l'::('e'::[]))))),
+    ('b'::('u'::('i'::('l'::('t'::('i'::('n'::('s'::[]))))))))) :: ((('t'::('y'::('p'::('e'::[])))),
+    ('b'::('u'::('i'::('l'::('t'::('i'::('n'::('s'::[]))))))))) :: ((('v'::('a'::('r'::('s'::[])))),
+    ('b'::('u'::('i'::('l'::('t'::('i'::('n'::('s'::[]))))))))) :: ((('z'::('i'::('p'::[]))),
+    ('b'::('u'::('i'::('l'::('t'::('i'::('n'::('s'::[]))))))))) :: []))))))))))))))))))))))))))))))))))))))))))))))))))))))))))))))))))))))))))))))))))))))))))))))))))))))))))))))))))))))))))))))))))))))))))))))))))))))))))))
 
 (** val documented : char list list **)
 
 let documented =
-  []
+  ('s'::('i'::('n'::[]))) :: (('c'::('o'::('s'::[]))) :: (('t'::('a'::('n'::[]))) :: (('a'::('c'::('o'::('s'::[])))) :: (('a'::('s'::('i'::('n'::[])))) :: (('a'::('t'::('a'::('n'::[])))) :: (('a'::('t'::('a'::('n'::('2'::[]))))) :: (('s'::('i'::('n'::('h'::[])))) :: (('c'::('o'::('s'::('h'::[])))) :: (('t'::('a'::('n'::('h'::[])))) :: (('a'::('s'::('i'::('n'::('h'::[]))))) :: (('a'::('c'::('o'::('s'::('h'::[]))))) :: (('a'::('t'::('a'::('n'::('h'::[]))))) :: (('e'::('x'::('p'::[]))) :: (('l'::('d'::('e'::('x'::('p'::[]))))) :: (('l'::('o'::('g'::[]))) :: (('l'::('n'::[])) :: (('l'::('o'::('g'::('1'::('0'::[]))))) :: (('e'::('x'::('p'::('2'::[])))) :: (('e'::('x'::('p'::('m'::('1'::[]))))) :: (('i'::('l'::('o'::('g'::('b'::[]))))) :: (('l'::('o'::('g'::('1'::('p'::[]))))) :: (('l'::('o'::('g'::('2'::[])))) :: (('s'::('c'::('a'::('l'::('b'::('n'::[])))))) :: (('s'::('c'::('a'::('l'::('b'::('l'::('n'::[]))))))) :: (('p'::('o'::('w'::[]))) :: (('s'::('q'::('r'::('t'::[])))) :: (('c'::('b'::('r'::('t'::[])))) :: (('h'::('y'::('p'::('o'::('t'::[]))))) :: (('e'::('r'::('f'::[]))) :: (('e'::('r'::('f'::('c'::[])))) :: (('t'::('g'::('a'::('m'::('m'::('a'::[])))))) :: (('l'::('g'::('a'::('m'::('m'::('a'::[])))))) :: (('c'::('e'::('i'::('l'::[])))) :: (('f'::('l'::('o'::('o'::('r'::[]))))) :: (('f'::('m'::('o'::('d'::[])))) :: (('t'::('r'::('u'::('n'::('c'::[]))))) :: (('r'::('o'::('u'::('n'::('d'::[]))))) :: (('r'::('i'::('n'::('t'::[])))) :: (('n'::('e'::('a'::('r'::('b'::('y'::('i'::('n'::('t'::[]))))))))) :: (('r'::('e'::('m'::('a'::('i'::('n'::('d'::('e'::('r'::[]))))))))) :: (('r'::('e'::('m'::('q'::('u'::('o'::[])))))) :: (('c'::('o'::('p'::('y'::('s'::('i'::('g'::('n'::[])))))))) :: (('n'::('a'::('n'::[]))) :: (('n'::('e'::('x'::('t'::('a'::('f'::('t'::('e'::('r'::[]))))))))) :: (('n'::('e'::('x'::('t'::('t'::('o'::('w'::('a'::('r'::('d'::[])))))))))) :: (('f'::('d'::('i'::('m'::[])))) :: (('f'::('m'::('a'::('x'::[])))) :: (('f'::('m'::('i'::('n'::[])))) :: (('f'::('a'::('b'::('s'::[])))) :: (('a'::('b'::('s'::[]))) :: (('f'::('m'::('a'::[]))) :: [])))))))))))))))))))))))))))))))))))))))))))))))))))
 
 (** val math_env : menv **)
 
 let math_env =
   { e_rows = math_rows; e_module = module_names; e_builtins = builtin_names }
+
+(** val errFileNotFound : err **)
+
+let errFileNotFound =
+  ErrOther
+    ('F'::('i'::('l'::('e'::('N'::('o'::('t'::('F'::('o'::('u'::('n'::('d'::('E'::('r'::('r'::('o'::('r'::[])))))))))))))))))
+
+(** val errDocker : err **)
+
+let errDocker =
+  ErrOther
+    ('D'::('o'::('c'::('k'::('e'::('r'::('E'::('x'::('c'::('e'::('p'::('t'::('i'::('o'::('n'::[])))))))))))))))
+
+(** val nl : char list **)
+
+let nl =
+  (ascii_of_nat (S (S (S (S (S (S (S (S (S (S O)))))))))))::[]
+
+(** val result_file_name : char list **)
+
+let result_file_name =
+  'A'::('N'::('A'::('L'::('Y'::('S'::('I'::('S'::('.'::('r'::('o'::('o'::('t'::[]))))))))))))
+
+type file = { f_parent : char list; f_name : char list; f_exists : bool }
+
+type backend =
+| Atlas
+| CmsAod
+| CmsMiniaod
+
+type md =
+| MdDocker of char list option
+| MdOther
+
+type dataset_args = { a_files : file list; a_image : char list;
+                      a_tag : char list; a_outdir : char list option;
+                      a_backend : backend }
+
+type env = { e_tmpdir : char list; e_cwd : char list; e_outdir_exists : bool }
+
+type query = { q_mds : md list; q_translate : err option }
+
+type chunk =
+| ChBytes of bool
+| ChOther
+
+type container = { k_at_call : bool; k_chunks : chunk list;
+                   k_fail_after : nat option; k_result : bool }
+
+type vsrc =
+| SrcPkg
+| SrcDir of char list
+| SrcName of char list
+
+type volume = { v_src : vsrc; v_dst : char list; v_mode : char list option }
+
+type call = { c_image : char list; c_command : char list list;
+              c_volumes : volume list; c_remove : bool; c_stream : bool }
+
+type effects = { x_calls : call list; x_filelist : char list;
+                 x_outcome : char list list result }
+
+(** val cache_volumes : backend -> (char list * char list) list **)
+
+let cache_volumes = function
+| Atlas ->
+  (('a'::('t'::('l'::('a'::('s'::('_'::('x'::('a'::('o'::('d'::('_'::('c'::('a'::('l'::('i'::('b'::('r'::('a'::('t'::('i'::('o'::('n'::('_'::('c'::('a'::('c'::('h'::('e'::[])))))))))))))))))))))))))))),
+    ('/'::('x'::('a'::('o'::('d'::('_'::('c'::('a'::('l'::('i'::('b'::('r'::('a'::('t'::('i'::('o'::('n'::('_'::('c'::('a'::('c'::('h'::('e'::[])))))))))))))))))))))))) :: []
+| _ -> []
+
+(** val runner_name : backend -> char list **)
+
+let runner_name _ =
+  'r'::('u'::('n'::('n'::('e'::('r'::('.'::('s'::('h'::[]))))))))
+
+(** val docker_volume_name : char list -> char list **)
+
+let docker_volume_name n0 =
+  append ('f'::('u'::('n'::('c'::('_'::('a'::('d'::('l'::('_'::[]))))))))) n0
+
+(** val is_abs : char list -> bool **)
+
+let is_abs = function
+| [] -> false
+| c::_ -> (=) c '/'
+
+(** val path_join : char list -> char list -> char list **)
+
+let path_join d n0 =
+  if eqb0 d ('/'::[])
+  then append ('/'::[]) n0
+  else append d (append ('/'::[]) n0)
+
+(** val absolute : char list -> char list -> char list **)
+
+let absolute cwd p =
+  if is_abs p then p else if eqb0 p ('.'::[]) then cwd else path_join cwd p
+
+type dataset = { d_files : file list; d_docker_image : char list;
+                 d_output_directory : char list; d_backend : backend }
+
+(** val construct : dataset_args -> env -> dataset result **)
+
+let construct a e =
+  match a.a_files with
+  | [] -> Error ErrRuntime
+  | _ :: _ ->
+    (match find (fun f -> negb f.f_exists) a.a_files with
+     | Some _ -> Error errFileNotFound
+     | None ->
+       OK { d_files = a.a_files; d_docker_image =
+         (append a.a_image (append (':'::[]) a.a_tag)); d_output_directory =
+         (match a.a_outdir with
+          | Some d -> d
+          | None -> e.e_tmpdir); d_backend = a.a_backend })
+
+(** val found_docker : char list -> md list -> char list list **)
+
+let rec found_docker dflt = function
+| [] -> []
+| m :: r ->
+  (match m with
+   | MdDocker image ->
+     (match image with
+      | Some i -> i :: (found_docker dflt r)
+      | None -> dflt :: (found_docker dflt r))
+   | MdOther -> found_docker dflt r)
+
+(** val pick_image : char list -> md list -> char list **)
+
+let pick_image dflt mds =
+  last (found_docker dflt mds) dflt
+
+(** val filelist_line : file -> char list **)
+
+let filelist_line u =
+  append ('/'::('d'::('a'::('t'::('a'::('/'::[])))))) (append u.f_name nl)
+
+(** val filelist_loop :
+    file list -> char list option -> char list -> char list * char list
+    option result **)
+
+let rec filelist_loop fs dir written =
+  match fs with
+  | [] -> (written, (OK dir))
+  | u :: r ->
+    let written' = append written (filelist_line u) in
+    (match dir with
+     | Some d ->
+       if eqb0 u.f_parent d
+       then filelist_loop r dir written'
+       else (written', (Error ErrRuntime))
+     | None -> filelist_loop r (Some u.f_parent) written')
+
+(** val stream_loop : chunk list -> nat option -> unit result **)
+
+let rec stream_loop cs fail = match fail with
+| Some n0 ->
+  (match n0 with
+   | O -> Error errDocker
+   | S _ ->
+     (match cs with
+      | [] -> (match fail with
+               | Some _ -> Error errDocker
+               | None -> OK ())
+      | c :: r ->
+        (match c with
+         | ChBytes _ -> stream_loop r (option_map Nat.pred fail)
+         | ChOther -> Error ErrAttr)))
+| None ->
+  (match cs with
+   | [] -> (match fail with
+            | Some _ -> Error errDocker
+            | None -> OK ())
+   | c :: r ->
+     (match c with
+      | ChBytes _ -> stream_loop r (option_map Nat.pred fail)
+      | ChOther -> Error ErrAttr))
+
+(** val run_container : container -> unit result **)
+
+let run_container k =
+  if k.k_at_call
+  then Error errDocker
+  else stream_loop k.k_chunks k.k_fail_after
+
+(** val extract_result : container -> env -> char list -> char list result **)
+
+let extract_result k e outdir =
+  if k.k_result
+  then if e.e_outdir_exists
+       then OK (path_join outdir result_file_name)
+       else Error errFileNotFound
+  else Error errFileNotFound
+
+(** val volumes_to_mount : backend -> char list -> volume list **)
+
+let volumes_to_mount b datadir =
+  app ({ v_src = SrcPkg; v_dst =
+    ('/'::('s'::('c'::('r'::('i'::('p'::('t'::('s'::[])))))))); v_mode =
+    (Some ('r'::('o'::[]))) } :: ({ v_src = SrcPkg; v_dst =
+    ('/'::('r'::('e'::('s'::('u'::('l'::('t'::('s'::[])))))))); v_mode =
+    (Some ('r'::('w'::[]))) } :: ({ v_src = (SrcDir datadir); v_dst =
+    ('/'::('d'::('a'::('t'::('a'::('/'::[])))))); v_mode = (Some
+    ('r'::('o'::[]))) } :: [])))
+    (map (fun v -> { v_src = (SrcName (docker_volume_name (fst v))); v_dst =
+      (snd v); v_mode = None }) (cache_volumes b))
+
+(** val execute : dataset -> env -> query -> container -> effects **)
+
+let execute ds e q k =
+  match q.q_translate with
+  | Some er -> { x_calls = []; x_filelist = []; x_outcome = (Error er) }
+  | None ->
+    let image = pick_image ds.d_docker_image q.q_mds in
+    let (written, r) = filelist_loop ds.d_files None [] in
+    (match r with
+     | OK a ->
+       (match a with
+        | Some dir ->
+          let c = { c_image = image; c_command =
+            ((append
+               ('/'::('s'::('c'::('r'::('i'::('p'::('t'::('s'::('/'::[])))))))))
+               (runner_name ds.d_backend)) :: []); c_volumes =
+            (volumes_to_mount ds.d_backend (absolute e.e_cwd dir));
+            c_remove = true; c_stream = true }
+          in
+          (match run_container k with
+           | OK _ ->
+             (match extract_result k e ds.d_output_directory with
+              | OK p ->
+                { x_calls = (c :: []); x_filelist = written; x_outcome = (OK
+                  (p :: [])) }
+              | Error er ->
+                { x_calls = (c :: []); x_filelist = written; x_outcome =
+                  (Error er) })
+           | Error er ->
+             { x_calls = (c :: []); x_filelist = written; x_outcome = (Error
+               er) })
+        | None ->
+          { x_calls = []; x_filelist = written; x_outcome = (Error ErrAttr) })
+     | Error er ->
+       { x_calls = []; x_filelist = written; x_outcome = (Error er) })
+
+(** val run : dataset_args -> env -> query -> container -> effects **)
+
+let run a e q k =
+  match construct a e with
+  | OK ds -> execute ds e q k
+  | Error er -> { x_calls = []; x_filelist = []; x_outcome = (Error er) }
+
+(** val d_file : sexp -> file option **)
+
+let d_file = function
+| SAtom _ -> None
+| SList l ->
+  (match l with
+   | [] -> None
+   | s0 :: l0 ->
+     (match s0 with
+      | SAtom p ->
+        (match l0 with
+         | [] -> None
+         | s1 :: l1 ->
+           (match s1 with
+            | SAtom n0 ->
+              (match l1 with
+               | [] -> None
+               | ex :: l2 ->
+                 (match l2 with
+                  | [] ->
+                    (match d_bool ex with
+                     | Some b ->
+                       Some { f_parent = p; f_name = n0; f_exists = b }
+                     | None -> None)
+                  | _ :: _ -> None))
+            | SList _ -> None))
+      | SList _ -> None))
+
+(** val d_backend_ : sexp -> backend option **)
+
+let d_backend_ = function
+| SAtom s0 ->
+  (match s0 with
+   | [] -> None
+   | a::s1 ->
+     (* If this appears, you're using Ascii internals. Please don't *)
+ (fun f c ->
+  let n = Char.code c in
+  let h i = (n land (1 lsl i)) <> 0 in
+  f (h 0) (h 1) (h 2) (h 3) (h 4) (h 5) (h 6) (h 7))
+       (fun b b0 b1 b2 b3 b4 b5 b6 ->
+       if b
+       then if b0
+            then if b1
+                 then None
+                 else if b2
+                      then None
+                      else if b3
+                           then None
+                           else if b4
+                                then if b5
+                                     then if b6
+                                          then None
+                                          else (match s1 with
+                                                | [] -> None
+                                                | a0::s2 ->
+                                                  (* If this appears, you're using Ascii internals. Please don't *)
+ (fun f c ->
+  let n = Char.code c in
+  let h i = (n land (1 lsl i)) <> 0 in
+  f (h 0) (h 1) (h 2) (h 3) (h 4) (h 5) (h 6) (h 7))
+                                                    (fun b7 b8 b9 b10 b11 b12 b13 b14 ->
+                                                    if b7
+                                                    then if b8
+                                                         then None
+                                                         else if b9
+                                                              then if b10
+                                                                   then 
+                                                                    if b11
+                                                                    then None
+                                                                    else 
+                                                                    if b12
+                                                                    then 
+                                                                    if b13
+                                                                    then 
+                                                                    if b14
+                                                                    then None
+                                                                    else 
+                                                                    (match s2 with
+                                                                    | [] ->
+                                                                    None
+                                                                    | a1::s3 ->
+                                                                    (* If this appears, you're using Ascii internals. Please don't *)
+ (fun f c ->
+  let n = Char.code c in
+  let h i = (n land (1 lsl i)) <> 0 in
+  f (h 0) (h 1) (h 2) (h 3) (h 4) (h 5) (h 6) (h 7))
+                                                                    (fun b15 b16 b17 b18 b19 b20 b21 b22 ->
+                                                                    if b15
+                                                                    then 
+                                                                    if b16
+                                                                    then 
+                                                                    if b17
+                                                                    then None
+                                                                    else 
+                                                                    if b18
+                                                                    then None
+                                                                    else 
+                                                                    if b19
+                                                                    then 
+                                                                    if b20
+                                                                    then 
+                                                                    if b21
+                                                                    then 
+                                                                    if b22
+                                                                    then None
+                                                                    else 
+                                                                    (match s3 with
+                                                                    | [] ->
+                                                                    None
+                                                                    | a2::s4 ->
+                                                                    (* If this appears, you're using Ascii internals. Please don't *)
+ (fun f c ->
+  let n = Char.code c in
+  let h i = (n land (1 lsl i)) <> 0 in
+  f (h 0) (h 1) (h 2) (h 3) (h 4) (h 5) (h 6) (h 7))
+                                                                    (fun b23 b24 b25 b26 b27 b28 b29 b30 ->
+                                                                    if b23
+                                                                    then 
+                                                                    if b24
+                                                                    then 
+                                                                    if b25
+                                                                    then 
+                                                                    if b26
+                                                                    then 
+                                                                    if b27
+                                                                    then 
+                                                                    if b28
+                                                                    then None
+                                                                    else 
+                                                                    if b29
+                                                                    then 
+                                                                    if b30
+                                                                    then None
+                                                                    else 
+                                                                    (match s4 with
+                                                                    | [] ->
+                                                                    None
+                                                                    | a3::s5 ->
+                                                                    (* If this appears, you're using Ascii internals. Please don't *)
+ (fun f c ->
+  let n = Char.code c in
+  let h i = (n land (1 lsl i)) <> 0 in
+  f (h 0) (h 1) (h 2) (h 3) (h 4) (h 5) (h 6) (h 7))
+                                                                    (fun b31 b32 b33 b34 b35 b36 b37 b38 ->
+                                                                    if b31
+                                                                    then 
+                                                                    if b32
+                                                                    then None
+                                                                    else 
+                                                                    if b33
+                                                                    then 
+                                                                    if b34
+                                                                    then 
+                                                                    if b35
+                                                                    then None
+                                                                    else 
+                                                                    if b36
+                                                                    then 
+                                                                    if b37
+                                                                    then 
+                                                                    if b38
+                                                                    then None
+                                                                    else 
+                                                                    (match s5 with
+                                                                    | [] ->
+                                                                    None
+                                                                    | a4::s6 ->
+                                                                    (* If this appears, you're using Ascii internals. Please don't *)
+ (fun f c ->
+  let n = Char.code c in
+  let h i = (n land (1 lsl i)) <> 0 in
+  f (h 0) (h 1) (h 2) (h 3) (h 4) (h 5) (h 6) (h 7))
+                                                                    (fun b39 b40 b41 b42 b43 b44 b45 b46 ->
+                                                                    if b39
+                                                                    then 
+                                                                    if b40
+                                                                    then None
+                                                                    else 
+                                                                    if b41
+                                                                    then None
+                                                                    else 
+                                                                    if b42
+                                                                    then 
+                                                                    if b43
+                                                                    then None
+                                                                    else 
+                                                                    if b44
+                                                                    then 
+                                                                    if b45
+                                                                    then 
+                                                                    if b46
+                                                                    then None
+                                                                    else 
+                                                                    (match s6 with
+                                                                    | [] ->
+                                                                    None
+                                                                    | a5::s7 ->
+                                                                    (* If this appears, you're using Ascii internals. Please don't *)
+ (fun f c ->
+  let n = Char.code c in
+  let h i = (n land (1 lsl i)) <> 0 in
+  f (h 0) (h 1) (h 2) (h 3) (h 4) (h 5) (h 6) (h 7))
+                                                                    (fun b47 b48 b49 b50 b51 b52 b53 b54 ->
+                                                                    if b47
+                                                                    then None
+                                                                    else 
+                                                                    if b48
+                                                                    then 
+                                                                    if b49
+                                                                    then 
+                                                                    if b50
+                                                                    then 
+                                                                    if b51
+                                                                    then None
+                                                                    else 
+                                                                    if b52
+                                                                    then 
+                                                                    if b53
+                                                                    then 
+                                                                    if b54
+                                                                    then None
+                                                                    else 
+                                                                    (match s7 with
+                                                                    | [] ->
+                                                                    None
+                                                                    | a6::s8 ->
+                                                                    (* If this appears, you're using Ascii internals. Please don't *)
+ (fun f c ->
+  let n = Char.code c in
+  let h i = (n land (1 lsl i)) <> 0 in
+  f (h 0) (h 1) (h 2) (h 3) (h 4) (h 5) (h 6) (h 7))
+                                                                    (fun b55 b56 b57 b58 b59 b60 b61 b62 ->
+                                                                    if b55
+                                                                    then 
+                                                                    if b56
+                                                                    then None
+                                                                    else 
+                                                                    if b57
+                                                                    then None
+                                                                    else 
+                                                                    if b58
+                                                                    then 
+                                                                    if b59
+                                                                    then None
+                                                                    else 
+                                                                    if b60
+                                                                    then 
+                                                                    if b61
+                                                                    then 
+                                                                    if b62
+                                                                    then None
+                                                                    else 
+                                                                    (match s8 with
+                                                                    | [] ->
+                                                                    None
+                                                                    | a7::s9 ->
+                                                                    (* If this appears, you're using Ascii internals. Please don't *)
+ (fun f c ->
+  let n = Char.code c in
+  let h i = (n land (1 lsl i)) <> 0 in
+  f (h 0) (h 1) (h 2) (h 3) (h 4) (h 5) (h 6) (h 7))
+                                                                    (fun b63 b64 b65 b66 b67 b68 b69 b70 ->
+                                                                    if b63
+                                                                    then 
+                                                                    if b64
+                                                                    then None
+                                                                    else 
+                                                                    if b65
+                                                                    then None
+                                                                    else 
+                                                                    if b66
+                                                                    then None
+                                                                    else 
+                                                                    if b67
+                                                                    then None
+                                                                    else 
+                                                                    if b68
+                                                                    then 
+                                                                    if b69
+                                                                    then 
+                                                                    if b70
+                                                                    then None
+                                                                    else 
+                                                                    (match s9 with
+                                                                    | [] ->
+                                                                    None
+                                                                    | a8::s10 ->
+                                                                    (* If this appears, you're using Ascii internals. Please don't *)
+ (fun f c ->
+  let n = Char.code c in
+  let h i = (n land (1 lsl i)) <> 0 in
+  f (h 0) (h 1) (h 2) (h 3) (h 4) (h 5) (h 6) (h 7))
+                                                                    (fun b71 b72 b73 b74 b75 b76 b77 b78 ->
+                                                                    if b71
+                                                                    then 
+                                                                    if b72
+                                                                    then 
+                                                                    if b73
+                                                                    then 
+                                                                    if b74
+                                                                    then 
+                                                                    if b75
+                                                                    then None
+                                                                    else 
+                                                                    if b76
+                                                                    then 
+                                                                    if b77
+                                                                    then 
+                                                                    if b78
+                                                                    then None
+                                                                    else 
+                                                                    (match s10 with
+                                                                    | [] ->
+                                                                    None
+                                                                    | a9::s11 ->
+                                                                    (* If this appears, you're using Ascii internals. Please don't *)
+ (fun f c ->
+  let n = Char.code c in
+  let h i = (n land (1 lsl i)) <> 0 in
+  f (h 0) (h 1) (h 2) (h 3) (h 4) (h 5) (h 6) (h 7))
+                                                                    (fun b79 b80 b81 b82 b83 b84 b85 b86 ->
+                                                                    if b79
+                                                                    then None
+                                                                    else 
+                                                                    if b80
+                                                                    then None
+                                                                    else 
+                                                                    if b81
+                                                                    then 
+                                                                    if b82
+                                                                    then None
+                                                                    else 
+                                                                    if b83
+                                                                    then None
+                                                                    else 
+                                                                    if b84
+                                                                    then 
+                                                                    if b85
+                                                                    then 
+                                                                    if b86
+                                                                    then None
+                                                                    else 
+                                                                    (match s11 with
+                                                                    | [] ->
+                                                                    Some
+                                                                    CmsMiniaod
+                                                                    | _::_ ->
+                                                                    None)
+                                                                    else None
+                                                                    else None
+                                                                    else None)
+                                                                    a9)
+                                                                    else None
+                                                                    else None
+                                                                    else None
+                                                                    else None
+                                                                    else None
+                                                                    else None)
+                                                                    a8)
+                                                                    else None
+                                                                    else None
+                                                                    else None)
+                                                                    a7)
+                                                                    else None
+                                                                    else None
+                                                                    else None
+                                                                    else None)
+                                                                    a6)
+                                                                    else None
+                                                                    else None
+                                                                    else None
+                                                                    else None
+                                                                    else None)
+                                                                    a5)
+                                                                    else None
+                                                                    else None
+                                                                    else None
+                                                                    else None)
+                                                                    a4)
+                                                                    else None
+                                                                    else None
+                                                                    else None
+                                                                    else 
+                                                                    if b34
+                                                                    then None
+                                                                    else 
+                                                                    if b35
+                                                                    then None
+                                                                    else 
+                                                                    if b36
+                                                                    then 
+                                                                    if b37
+                                                                    then 
+                                                                    if b38
+                                                                    then None
+                                                                    else 
+                                                                    (match s5 with
+                                                                    | [] ->
+                                                                    None
+                                                                    | a4::s6 ->
+                                                                    (* If this appears, you're using Ascii internals. Please don't *)
+ (fun f c ->
+  let n = Char.code c in
+  let h i = (n land (1 lsl i)) <> 0 in
+  f (h 0) (h 1) (h 2) (h 3) (h 4) (h 5) (h 6) (h 7))
+                                                                    (fun b39 b40 b41 b42 b43 b44 b45 b46 ->
+                                                                    if b39
+                                                                    then 
+                                                                    if b40
+                                                                    then 
+                                                                    if b41
+                                                                    then 
+                                                                    if b42
+                                                                    then 
+                                                                    if b43
+                                                                    then None
+                                                                    else 
+                                                                    if b44
+                                                                    then 
+                                                                    if b45
+                                                                    then 
+                                                                    if b46
+                                                                    then None
+                                                                    else 
+                                                                    (match s6 with
+                                                                    | [] ->
+                                                                    None
+                                                                    | a5::s7 ->
+                                                                    (* If this appears, you're using Ascii internals. Please don't *)
+ (fun f c ->
+  let n = Char.code c in
+  let h i = (n land (1 lsl i)) <> 0 in
+  f (h 0) (h 1) (h 2) (h 3) (h 4) (h 5) (h 6) (h 7))
+                                                                    (fun b47 b48 b49 b50 b51 b52 b53 b54 ->
+                                                                    if b47
+                                                                    then None
+                                                                    else 
+                                                                    if b48
+                                                                    then None
+                                                                    else 
+                                                                    if b49
+                                                                    then 
+                                                                    if b50
+                                                                    then None
+                                                                    else 
+                                                                    if b51
+                                                                    then None
+                                                                    else 
+                                                                    if b52
+                                                                    then 
+                                                                    if b53
+                                                                    then 
+                                                                    if b54
+                                                                    then None
+                                                                    else 
+                                                                    (match s7 with
+                                                                    | [] ->
+                                                                    Some
+                                                                    CmsAod
+                                                                    | _::_ ->
+                                                                    None)
+                                                                    else None
+                                                                    else None
+                                                                    else None)
+                                                                    a5)
+                                                                    else None
+                                                                    else None
+                                                                    else None
+                                                                    else None
+                                                                    else None
+                                                                    else None)
+                                                                    a4)
+                                                                    else None
+                                                                    else None
+                                                                    else None)
+                                                                    a3)
+                                                                    else None
+                                                                    else None
+                                                                    else None
+                                                                    else None
+                                                                    else None
+                                                                    else None)
+                                                                    a2)
+                                                                    else None
+                                                                    else None
+                                                                    else None
+                                                                    else None
+                                                                    else None)
+                                                                    a1)
+                                                                    else None
+                                                                    else None
+                                                                   else None
+                                                              else None
+                                                    else None)
+                                                    a0)
+                                     else None
+                                else None
+            else if b1
+                 then None
+                 else if b2
+                      then None
+                      else if b3
+                           then None
+                           else if b4
+                                then if b5
+                                     then if b6
+                                          then None
+                                          else (match s1 with
+                                                | [] -> None
+                                                | a0::s2 ->
+                                                  (* If this appears, you're using Ascii internals. Please don't *)
+ (fun f c ->
+  let n = Char.code c in
+  let h i = (n land (1 lsl i)) <> 0 in
+  f (h 0) (h 1) (h 2) (h 3) (h 4) (h 5) (h 6) (h 7))
+                                                    (fun b7 b8 b9 b10 b11 b12 b13 b14 ->
+                                                    if b7
+                                                    then None
+                                                    else if b8
+                                                         then None
+                                                         else if b9
+                                                              then if b10
+                                                                   then None
+                                                                   else 
+                                                                    if b11
+                                                                    then 
+                                                                    if b12
+                                                                    then 
+                                                                    if b13
+                                                                    then 
+                                                                    if b14
+                                                                    then None
+                                                                    else 
+                                                                    (match s2 with
+                                                                    | [] ->
+                                                                    None
+                                                                    | a1::s3 ->
+                                                                    (* If this appears, you're using Ascii internals. Please don't *)
+ (fun f c ->
+  let n = Char.code c in
+  let h i = (n land (1 lsl i)) <> 0 in
+  f (h 0) (h 1) (h 2) (h 3) (h 4) (h 5) (h 6) (h 7))
+                                                                    (fun b15 b16 b17 b18 b19 b20 b21 b22 ->
+                                                                    if b15
+                                                                    then None
+                                                                    else 
+                                                                    if b16
+                                                                    then None
+                                                                    else 
+                                                                    if b17
+                                                                    then 
+                                                                    if b18
+                                                                    then 
+                                                                    if b19
+                                                                    then None
+                                                                    else 
+                                                                    if b20
+                                                                    then 
+                                                                    if b21
+                                                                    then 
+                                                                    if b22
+                                                                    then None
+                                                                    else 
+                                                                    (match s3 with
+                                                                    | [] ->
+                                                                    None
+                                                                    | a2::s4 ->
+                                                                    (* If this appears, you're using Ascii internals. Please don't *)
+ (fun f c ->
+  let n = Char.code c in
+  let h i = (n land (1 lsl i)) <> 0 in
+  f (h 0) (h 1) (h 2) (h 3) (h 4) (h 5) (h 6) (h 7))
+                                                                    (fun b23 b24 b25 b26 b27 b28 b29 b30 ->
+                                                                    if b23
+                                                                    then 
+                                                                    if b24
+                                                                    then None
+                                                                    else 
+                                                                    if b25
+                                                                    then None
+                                                                    else 
+                                                                    if b26
+                                                                    then None
+                                                                    else 
+                                                                    if b27
+                                                                    then None
+                                                                    else 
+                                                                    if b28
+                                                                    then 
+                                                                    if b29
+                                                                    then 
+                                                                    if b30
+                                                                    then None
+                                                                    else 
+                                                                    (match s4 with
+                                                                    | [] ->
+                                                                    None
+                                                                    | a3::s5 ->
+                                                                    (* If this appears, you're using Ascii internals. Please don't *)
+ (fun f c ->
+  let n = Char.code c in
+  let h i = (n land (1 lsl i)) <> 0 in
+  f (h 0) (h 1) (h 2) (h 3) (h 4) (h 5) (h 6) (h 7))
+                                                                    (fun b31 b32 b33 b34 b35 b36 b37 b38 ->
+                                                                    if b31
+                                                                    then 
+                                                                    if b32
+                                                                    then 
+                                                                    if b33
+                                                                    then None
+                                                                    else 
+                                                                    if b34
+                                                                    then None
+                                                                    else 
+                                                                    if b35
+                                                                    then 
+                                                                    if b36
+                                                                    then 
+                                                                    if b37
+                                                                    then 
+                                                                    if b38
+                                                                    then None
+                                                                    else 
+                                                                    (match s5 with
+                                                                    | [] ->
+                                                                    Some Atlas
+                                                                    | _::_ ->
+                                                                    None)
+                                                                    else None
+                                                                    else None
+                                                                    else None
+                                                                    else None
+                                                                    else None)
+                                                                    a3)
+                                                                    else None
+                                                                    else None
+                                                                    else None)
+                                                                    a2)
+                                                                    else None
+                                                                    else None
+                                                                    else None
+                                                                    else None)
+                                                                    a1)
+                                                                    else None
+                                                                    else None
+                                                                    else None
+                                                              else None)
+                                                    a0)
+                                     else None
+                                else None
+       else None)
+       a)
+| SList _ -> None
+
+(** val d_opt_str : sexp -> char list option option **)
+
+let d_opt_str = function
+| SAtom _ -> None
+| SList l ->
+  (match l with
+   | [] -> Some None
+   | s0 :: l0 ->
+     (match s0 with
+      | SAtom a -> (match l0 with
+                    | [] -> Some (Some a)
+                    | _ :: _ -> None)
+      | SList _ -> None))
+
+(** val d_md : sexp -> md option **)
+
+let d_md = function
+| SAtom _ -> None
+| SList l ->
+  (match l with
+   | [] -> None
+   | s0 :: l0 ->
+     (match s0 with
+      | SAtom s1 ->
+        (match s1 with
+         | [] -> None
+         | a::s2 ->
+           (* If this appears, you're using Ascii internals. Please don't *)
+ (fun f c ->
+  let n = Char.code c in
+  let h i = (n land (1 lsl i)) <> 0 in
+  f (h 0) (h 1) (h 2) (h 3) (h 4) (h 5) (h 6) (h 7))
+             (fun b b0 b1 b2 b3 b4 b5 b6 ->
+             if b
+             then if b0
+                  then if b1
+                       then if b2
+                            then if b3
+                                 then None
+                                 else if b4
+                                      then if b5
+                                           then if b6
+                                                then None
+                                                else (match s2 with
+                                                      | [] -> None
+                                                      | a0::s3 ->
+                                                        (* If this appears, you're using Ascii internals. Please don't *)
+ (fun f c ->
+  let n = Char.code c in
+  let h i = (n land (1 lsl i)) <> 0 in
+  f (h 0) (h 1) (h 2) (h 3) (h 4) (h 5) (h 6) (h 7))
+                                                          (fun b7 b8 b9 b10 b11 b12 b13 b14 ->
+                                                          if b7
+                                                          then None
+                                                          else if b8
+                                                               then None
+                                                               else if b9
+                                                                    then 
+                                                                    if b10
+                                                                    then None
+                                                                    else 
+                                                                    if b11
+                                                                    then 
+                                                                    if b12
+                                                                    then 
+                                                                    if b13
+                                                                    then 
+                                                                    if b14
+                                                                    then None
+                                                                    else 
+                                                                    (match s3 with
+                                                                    | [] ->
+                                                                    None
+                                                                    | a1::s4 ->
+                                                                    (* If this appears, you're using Ascii internals. Please don't *)
+ (fun f c ->
+  let n = Char.code c in
+  let h i = (n land (1 lsl i)) <> 0 in
+  f (h 0) (h 1) (h 2) (h 3) (h 4) (h 5) (h 6) (h 7))
+                                                                    (fun b15 b16 b17 b18 b19 b20 b21 b22 ->
+                                                                    if b15
+                                                                    then None
+                                                                    else 
+                                                                    if b16
+                                                                    then None
+                                                                    else 
+                                                                    if b17
+                                                                    then None
+                                                                    else 
+                                                                    if b18
+                                                                    then 
+                                                                    if b19
+                                                                    then None
+                                                                    else 
+                                                                    if b20
+                                                                    then 
+                                                                    if b21
+                                                                    then 
+                                                                    if b22
+                                                                    then None
+                                                                    else 
+                                                                    (match s4 with
+                                                                    | [] ->
+                                                                    None
+                                                                    | a2::s5 ->
+                                                                    (* If this appears, you're using Ascii internals. Please don't *)
+ (fun f c ->
+  let n = Char.code c in
+  let h i = (n land (1 lsl i)) <> 0 in
+  f (h 0) (h 1) (h 2) (h 3) (h 4) (h 5) (h 6) (h 7))
+                                                                    (fun b23 b24 b25 b26 b27 b28 b29 b30 ->
+                                                                    if b23
+                                                                    then 
+                                                                    if b24
+                                                                    then None
+                                                                    else 
+                                                                    if b25
+                                                                    then 
+                                                                    if b26
+                                                                    then None
+                                                                    else 
+                                                                    if b27
+                                                                    then None
+                                                                    else 
+                                                                    if b28
+                                                                    then 
+                                                                    if b29
+                                                                    then 
+                                                                    if b30
+                                                                    then None
+                                                                    else 
+                                                                    (match s5 with
+                                                                    | [] ->
+                                                                    None
+                                                                    | a3::s6 ->
+                                                                    (* If this appears, you're using Ascii internals. Please don't *)
+ (fun f c ->
+  let n = Char.code c in
+  let h i = (n land (1 lsl i)) <> 0 in
+  f (h 0) (h 1) (h 2) (h 3) (h 4) (h 5) (h 6) (h 7))
+                                                                    (fun b31 b32 b33 b34 b35 b36 b37 b38 ->
+                                                                    if b31
+                                                                    then None
+                                                                    else 
+                                                                    if b32
+                                                                    then 
+                                                                    if b33
+                                                                    then None
+                                                                    else 
+                                                                    if b34
+                                                                    then None
+                                                                    else 
+                                                                    if b35
+                                                                    then 
+                                                                    if b36
+                                                                    then 
+                                                                    if b37
+                                                                    then 
+                                                                    if b38
+                                                                    then None
+                                                                    else 
+                                                                    (match s6 with
+                                                                    | [] ->
+                                                                    (match l0 with
+                                                                    | [] ->
+                                                                    Some
+                                                                    MdOther
+                                                                    | _ :: _ ->
+                                                                    None)
+                                                                    | _::_ ->
+                                                                    None)
+                                                                    else None
+                                                                    else None
+                                                                    else None
+                                                                    else None)
+                                                                    a3)
+                                                                    else None
+                                                                    else None
+                                                                    else None
+                                                                    else None)
+                                                                    a2)
+                                                                    else None
+                                                                    else None
+                                                                    else None)
+                                                                    a1)
+                                                                    else None
+                                                                    else None
+                                                                    else None
+                                                                    else None)
+                                                          a0)
+                                           else None
+                                      else None
+                            else None
+                       else None
+                  else None
+             else if b0
+                  then None
+                  else if b1
+                       then if b2
+                            then None
+                            else if b3
+                                 then None
+                                 else if b4
+                                      then if b5
+                                           then if b6
+                                                then None
+                                                else (match s2 with
+                                                      | [] -> None
+                                                      | a0::s3 ->
+                                                        (* If this appears, you're using Ascii internals. Please don't *)
+ (fun f c ->
+  let n = Char.code c in
+  let h i = (n land (1 lsl i)) <> 0 in
+  f (h 0) (h 1) (h 2) (h 3) (h 4) (h 5) (h 6) (h 7))
+                                                          (fun b7 b8 b9 b10 b11 b12 b13 b14 ->
+                                                          if b7
+                                                          then if b8
+                                                               then if b9
+                                                                    then 
+                                                                    if b10
+                                                                    then 
+                                                                    if b11
+                                                                    then None
+                                                                    else 
+                                                                    if b12
+                                                                    then 
+                                                                    if b13
+                                                                    then 
+                                                                    if b14
+                                                                    then None
+                                                                    else 
+                                                                    (match s3 with
+                                                                    | [] ->
+                                                                    None
+                                                                    | a1::s4 ->
+                                                                    (* If this appears, you're using Ascii internals. Please don't *)
+ (fun f c ->
+  let n = Char.code c in
+  let h i = (n land (1 lsl i)) <> 0 in
+  f (h 0) (h 1) (h 2) (h 3) (h 4) (h 5) (h 6) (h 7))
+                                                                    (fun b15 b16 b17 b18 b19 b20 b21 b22 ->
+                                                                    if b15
+                                                                    then 
+                                                                    if b16
+                                                                    then 
+                                                                    if b17
+                                                                    then None
+                                                                    else 
+                                                                    if b18
+                                                                    then None
+                                                                    else 
+                                                                    if b19
+                                                                    then None
+                                                                    else 
+                                                                    if b20
+                                                                    then 
+                                                                    if b21
+                                                                    then 
+                                                                    if b22
+                                                                    then None
+                                                                    else 
+                                                                    (match s4 with
+                                                                    | [] ->
+                                                                    None
+                                                                    | a2::s5 ->
+                                                                    (* If this appears, you're using Ascii internals. Please don't *)
+ (fun f c ->
+  let n = Char.code c in
+  let h i = (n land (1 lsl i)) <> 0 in
+  f (h 0) (h 1) (h 2) (h 3) (h 4) (h 5) (h 6) (h 7))
+                                                                    (fun b23 b24 b25 b26 b27 b28 b29 b30 ->
+                                                                    if b23
+                                                                    then 
+                                                                    if b24
+                                                                    then 
+                                                                    if b25
+                                                                    then None
+                                                                    else 
+                                                                    if b26
+                                                                    then 
+                                                                    if b27
+                                                                    then None
+                                                                    else 
+                                                                    if b28
+                                                                    then 
+                                                                    if b29
+                                                                    then 
+                                                                    if b30
+                                                                    then None
+                                                                    else 
+                                                                    (match s5 with
+                                                                    | [] ->
+                                                                    None
+                                                                    | a3::s6 ->
+                                                                    (* If this appears, you're using Ascii internals. Please don't *)
+ (fun f c ->
+  let n = Char.code c in
+  let h i = (n land (1 lsl i)) <> 0 in
+  f (h 0) (h 1) (h 2) (h 3) (h 4) (h 5) (h 6) (h 7))
+                                                                    (fun b31 b32 b33 b34 b35 b36 b37 b38 ->
+                                                                    if b31
+                                                                    then 
+                                                                    if b32
+                                                                    then None
+                                                                    else 
+                                                                    if b33
+                                                                    then 
+                                                                    if b34
+                                                                    then None
+                                                                    else 
+                                                                    if b35
+                                                                    then None
+                                                                    else 
+                                                                    if b36
+                                                                    then 
+                                                                    if b37
+                                                                    then 
+                                                                    if b38
+                                                                    then None
+                                                                    else 
+                                                                    (match s6 with
+                                                                    | [] ->
+                                                                    None
+                                                                    | a4::s7 ->
+                                                                    (* If this appears, you're using Ascii internals. Please don't *)
+ (fun f c ->
+  let n = Char.code c in
+  let h i = (n land (1 lsl i)) <> 0 in
+  f (h 0) (h 1) (h 2) (h 3) (h 4) (h 5) (h 6) (h 7))
+                                                                    (fun b39 b40 b41 b42 b43 b44 b45 b46 ->
+                                                                    if b39
+                                                                    then None
+                                                                    else 
+                                                                    if b40
+                                                                    then 
+                                                                    if b41
+                                                                    then None
+                                                                    else 
+                                                                    if b42
+                                                                    then None
+                                                                    else 
+                                                                    if b43
+                                                                    then 
+                                                                    if b44
+                                                                    then 
+                                                                    if b45
+                                                                    then 
+                                                                    if b46
+                                                                    then None
+                                                                    else 
+                                                                    (match s7 with
+                                                                    | [] ->
+                                                                    (match l0 with
+                                                                    | [] ->
+                                                                    Some
+                                                                    (MdDocker
+                                                                    None)
+                                                                    | s8 :: l1 ->
+                                                                    (match s8 with
+                                                                    | SAtom i ->
+                                                                    (match l1 with
+                                                                    | [] ->
+                                                                    Some
+                                                                    (MdDocker
+                                                                    (Some i))
+                                                                    | _ :: _ ->
+                                                                    None)
+                                                                    | SList _ ->
+                                                                    None))
+                                                                    | _::_ ->
+                                                                    None)
+                                                                    else None
+                                                                    else None
+                                                                    else None
+                                                                    else None)
+                                                                    a4)
+                                                                    else None
+                                                                    else None
+                                                                    else None
+                                                                    else None)
+                                                                    a3)
+                                                                    else None
+                                                                    else None
+                                                                    else None
+                                                                    else None
+                                                                    else None)
+                                                                    a2)
+                                                                    else None
+                                                                    else None
+                                                                    else None
+                                                                    else None)
+                                                                    a1)
+                                                                    else None
+                                                                    else None
+                                                                    else None
+                                                                    else None
+                                                               else None
+                                                          else None)
+                                                          a0)
+                                           else None
+                                      else None
+                       else None)
+             a)
+      | SList _ -> None))
+
+(** val d_chunk : sexp -> chunk option **)
+
+let d_chunk = function
+| SAtom s0 ->
+  (match s0 with
+   | [] -> None
+   | a::s1 ->
+     (* If this appears, you're using Ascii internals. Please don't *)
+ (fun f c ->
+  let n = Char.code c in
+  let h i = (n land (1 lsl i)) <> 0 in
+  f (h 0) (h 1) (h 2) (h 3) (h 4) (h 5) (h 6) (h 7))
+       (fun b b0 b1 b2 b3 b4 b5 b6 ->
+       if b
+       then if b0
+            then if b1
+                 then if b2
+                      then if b3
+                           then None
+                           else if b4
+                                then if b5
+                                     then if b6
+                                          then None
+                                          else (match s1 with
+                                                | [] -> None
+                                                | a0::s2 ->
+                                                  (* If this appears, you're using Ascii internals. Please don't *)
+ (fun f c ->
+  let n = Char.code c in
+  let h i = (n land (1 lsl i)) <> 0 in
+  f (h 0) (h 1) (h 2) (h 3) (h 4) (h 5) (h 6) (h 7))
+                                                    (fun b7 b8 b9 b10 b11 b12 b13 b14 ->
+                                                    if b7
+                                                    then None
+                                                    else if b8
+                                                         then None
+                                                         else if b9
+                                                              then if b10
+                                                                   then None
+                                                                   else 
+                                                                    if b11
+                                                                    then 
+                                                                    if b12
+                                                                    then 
+                                                                    if b13
+                                                                    then 
+                                                                    if b14
+                                                                    then None
+                                                                    else 
+                                                                    (match s2 with
+                                                                    | [] ->
+                                                                    None
+                                                                    | a1::s3 ->
+                                                                    (* If this appears, you're using Ascii internals. Please don't *)
+ (fun f c ->
+  let n = Char.code c in
+  let h i = (n land (1 lsl i)) <> 0 in
+  f (h 0) (h 1) (h 2) (h 3) (h 4) (h 5) (h 6) (h 7))
+                                                                    (fun b15 b16 b17 b18 b19 b20 b21 b22 ->
+                                                                    if b15
+                                                                    then None
+                                                                    else 
+                                                                    if b16
+                                                                    then None
+                                                                    else 
+                                                                    if b17
+                                                                    then None
+                                                                    else 
+                                                                    if b18
+                                                                    then 
+                                                                    if b19
+                                                                    then None
+                                                                    else 
+                                                                    if b20
+                                                                    then 
+                                                                    if b21
+                                                                    then 
+                                                                    if b22
+                                                                    then None
+                                                                    else 
+                                                                    (match s3 with
+                                                                    | [] ->
+                                                                    None
+                                                                    | a2::s4 ->
+                                                                    (* If this appears, you're using Ascii internals. Please don't *)
+ (fun f c ->
+  let n = Char.code c in
+  let h i = (n land (1 lsl i)) <> 0 in
+  f (h 0) (h 1) (h 2) (h 3) (h 4) (h 5) (h 6) (h 7))
+                                                                    (fun b23 b24 b25 b26 b27 b28 b29 b30 ->
+                                                                    if b23
+                                                                    then 
+                                                                    if b24
+                                                                    then None
+                                                                    else 
+                                                                    if b25
+                                                                    then 
+                                                                    if b26
+                                                                    then None
+                                                                    else 
+                                                                    if b27
+                                                                    then None
+                                                                    else 
+                                                                    if b28
+                                                                    then 
+                                                                    if b29
+                                                                    then 
+                                                                    if b30
+                                                                    then None
+                                                                    else 
+                                                                    (match s4 with
+                                                                    | [] ->
+                                                                    None
+                                                                    | a3::s5 ->
+                                                                    (* If this appears, you're using Ascii internals. Please don't *)
+ (fun f c ->
+  let n = Char.code c in
+  let h i = (n land (1 lsl i)) <> 0 in
+  f (h 0) (h 1) (h 2) (h 3) (h 4) (h 5) (h 6) (h 7))
+                                                                    (fun b31 b32 b33 b34 b35 b36 b37 b38 ->
+                                                                    if b31
+                                                                    then None
+                                                                    else 
+                                                                    if b32
+                                                                    then 
+                                                                    if b33
+                                                                    then None
+                                                                    else 
+                                                                    if b34
+                                                                    then None
+                                                                    else 
+                                                                    if b35
+                                                                    then 
+                                                                    if b36
+                                                                    then 
+                                                                    if b37
+                                                                    then 
+                                                                    if b38
+                                                                    then None
+                                                                    else 
+                                                                    (match s5 with
+                                                                    | [] ->
+                                                                    Some
+                                                                    ChOther
+                                                                    | _::_ ->
+                                                                    None)
+                                                                    else None
+                                                                    else None
+                                                                    else None
+                                                                    else None)
+                                                                    a3)
+                                                                    else None
+                                                                    else None
+                                                                    else None
+                                                                    else None)
+                                                                    a2)
+                                                                    else None
+                                                                    else None
+                                                                    else None)
+                                                                    a1)
+                                                                    else None
+                                                                    else None
+                                                                    else None
+                                                              else None)
+                                                    a0)
+                                     else None
+                                else None
+                      else None
+                 else if b2
+                      then None
+                      else if b3
+                           then if b4
+                                then if b5
+                                     then if b6
+                                          then None
+                                          else (match s1 with
+                                                | [] -> None
+                                                | a0::s2 ->
+                                                  (* If this appears, you're using Ascii internals. Please don't *)
+ (fun f c ->
+  let n = Char.code c in
+  let h i = (n land (1 lsl i)) <> 0 in
+  f (h 0) (h 1) (h 2) (h 3) (h 4) (h 5) (h 6) (h 7))
+                                                    (fun b7 b8 b9 b10 b11 b12 b13 b14 ->
+                                                    if b7
+                                                    then None
+                                                    else if b8
+                                                         then None
+                                                         else if b9
+                                                              then if b10
+                                                                   then None
+                                                                   else 
+                                                                    if b11
+                                                                    then 
+                                                                    if b12
+                                                                    then 
+                                                                    if b13
+                                                                    then 
+                                                                    if b14
+                                                                    then None
+                                                                    else 
+                                                                    (match s2 with
+                                                                    | [] ->
+                                                                    None
+                                                                    | a1::s3 ->
+                                                                    (* If this appears, you're using Ascii internals. Please don't *)
+ (fun f c ->
+  let n = Char.code c in
+  let h i = (n land (1 lsl i)) <> 0 in
+  f (h 0) (h 1) (h 2) (h 3) (h 4) (h 5) (h 6) (h 7))
+                                                                    (fun b15 b16 b17 b18 b19 b20 b21 b22 ->
+                                                                    if b15
+                                                                    then None
+                                                                    else 
+                                                                    if b16
+                                                                    then None
+                                                                    else 
+                                                                    if b17
+                                                                    then 
+                                                                    if b18
+                                                                    then None
+                                                                    else 
+                                                                    if b19
+                                                                    then None
+                                                                    else 
+                                                                    if b20
+                                                                    then 
+                                                                    if b21
+                                                                    then 
+                                                                    if b22
+                                                                    then None
+                                                                    else 
+                                                                    (match s3 with
+                                                                    | [] ->
+                                                                    None
+                                                                    | a2::s4 ->
+                                                                    (* If this appears, you're using Ascii internals. Please don't *)
+ (fun f c ->
+  let n = Char.code c in
+  let h i = (n land (1 lsl i)) <> 0 in
+  f (h 0) (h 1) (h 2) (h 3) (h 4) (h 5) (h 6) (h 7))
+                                                                    (fun b23 b24 b25 b26 b27 b28 b29 b30 ->
+                                                                    if b23
+                                                                    then 
+                                                                    if b24
+                                                                    then 
+                                                                    if b25
+                                                                    then 
+                                                                    if b26
+                                                                    then 
+                                                                    if b27
+                                                                    then None
+                                                                    else 
+                                                                    if b28
+                                                                    then 
+                                                                    if b29
+                                                                    then 
+                                                                    if b30
+                                                                    then None
+                                                                    else 
+                                                                    (match s4 with
+                                                                    | [] ->
+                                                                    None
+                                                                    | a3::s5 ->
+                                                                    (* If this appears, you're using Ascii internals. Please don't *)
+ (fun f c ->
+  let n = Char.code c in
+  let h i = (n land (1 lsl i)) <> 0 in
+  f (h 0) (h 1) (h 2) (h 3) (h 4) (h 5) (h 6) (h 7))
+                                                                    (fun b31 b32 b33 b34 b35 b36 b37 b38 ->
+                                                                    if b31
+                                                                    then 
+                                                                    if b32
+                                                                    then None
+                                                                    else 
+                                                                    if b33
+                                                                    then 
+                                                                    if b34
+                                                                    then None
+                                                                    else 
+                                                                    if b35
+                                                                    then 
+                                                                    if b36
+                                                                    then 
+                                                                    if b37
+                                                                    then 
+                                                                    if b38
+                                                                    then None
+                                                                    else 
+                                                                    (match s5 with
+                                                                    | [] ->
+                                                                    None
+                                                                    | a4::s6 ->
+                                                                    (* If this appears, you're using Ascii internals. Please don't *)
+ (fun f c ->
+  let n = Char.code c in
+  let h i = (n land (1 lsl i)) <> 0 in
+  f (h 0) (h 1) (h 2) (h 3) (h 4) (h 5) (h 6) (h 7))
+                                                                    (fun b39 b40 b41 b42 b43 b44 b45 b46 ->
+                                                                    if b39
+                                                                    then None
+                                                                    else 
+                                                                    if b40
+                                                                    then None
+                                                                    else 
+                                                                    if b41
+                                                                    then 
+                                                                    if b42
+                                                                    then None
+                                                                    else 
+                                                                    if b43
+                                                                    then 
+                                                                    if b44
+                                                                    then 
+                                                                    if b45
+                                                                    then 
+                                                                    if b46
+                                                                    then None
+                                                                    else 
+                                                                    (match s6 with
+                                                                    | [] ->
+                                                                    Some
+                                                                    (ChBytes
+                                                                    true)
+                                                                    | _::_ ->
+                                                                    None)
+                                                                    else None
+                                                                    else None
+                                                                    else None
+                                                                    else None)
+                                                                    a4)
+                                                                    else None
+                                                                    else None
+                                                                    else None
+                                                                    else None
+                                                                    else None)
+                                                                    a3)
+                                                                    else None
+                                                                    else None
+                                                                    else None
+                                                                    else None
+                                                                    else 
+                                                                    if b25
+                                                                    then 
+                                                                    if b26
+                                                                    then None
+                                                                    else 
+                                                                    if b27
+                                                                    then None
+                                                                    else 
+                                                                    if b28
+                                                                    then 
+                                                                    if b29
+                                                                    then 
+                                                                    if b30
+                                                                    then None
+                                                                    else 
+                                                                    (match s4 with
+                                                                    | [] ->
+                                                                    None
+                                                                    | a3::s5 ->
+                                                                    (* If this appears, you're using Ascii internals. Please don't *)
+ (fun f c ->
+  let n = Char.code c in
+  let h i = (n land (1 lsl i)) <> 0 in
+  f (h 0) (h 1) (h 2) (h 3) (h 4) (h 5) (h 6) (h 7))
+                                                                    (fun b31 b32 b33 b34 b35 b36 b37 b38 ->
+                                                                    if b31
+                                                                    then None
+                                                                    else 
+                                                                    if b32
+                                                                    then 
+                                                                    if b33
+                                                                    then None
+                                                                    else 
+                                                                    if b34
+                                                                    then None
+                                                                    else 
+                                                                    if b35
+                                                                    then 
+                                                                    if b36
+                                                                    then 
+                                                                    if b37
+                                                                    then 
+                                                                    if b38
+                                                                    then None
+                                                                    else 
+                                                                    (match s5 with
+                                                                    | [] ->
+                                                                    None
+                                                                    | a4::s6 ->
+                                                                    (* If this appears, you're using Ascii internals. Please don't *)
+ (fun f c ->
+  let n = Char.code c in
+  let h i = (n land (1 lsl i)) <> 0 in
+  f (h 0) (h 1) (h 2) (h 3) (h 4) (h 5) (h 6) (h 7))
+                                                                    (fun b39 b40 b41 b42 b43 b44 b45 b46 ->
+                                                                    if b39
+                                                                    then None
+                                                                    else 
+                                                                    if b40
+                                                                    then 
+                                                                    if b41
+                                                                    then None
+                                                                    else 
+                                                                    if b42
+                                                                    then None
+                                                                    else 
+                                                                    if b43
+                                                                    then 
+                                                                    if b44
+                                                                    then 
+                                                                    if b45
+                                                                    then 
+                                                                    if b46
+                                                                    then None
+                                                                    else 
+                                                                    (match s6 with
+                                                                    | [] ->
+                                                                    Some
+                                                                    (ChBytes
+                                                                    false)
+                                                                    | _::_ ->
+                                                                    None)
+                                                                    else None
+                                                                    else None
+                                                                    else None
+                                                                    else None)
+                                                                    a4)
+                                                                    else None
+                                                                    else None
+                                                                    else None
+                                                                    else None)
+                                                                    a3)
+                                                                    else None
+                                                                    else None
+                                                                    else None
+                                                                    else None)
+                                                                    a2)
+                                                                    else None
+                                                                    else None
+                                                                    else None)
+                                                                    a1)
+                                                                    else None
+                                                                    else None
+                                                                    else None
+                                                              else None)
+                                                    a0)
+                                     else None
+                                else None
+                           else None
+            else None
+       else None)
+       a)
+| SList _ -> None
+
+(** val d_opt_nat : sexp -> nat option option **)
+
+let d_opt_nat = function
+| SAtom _ -> None
+| SList l ->
+  (match l with
+   | [] -> Some None
+   | n0 :: l0 ->
+     (match l0 with
+      | [] -> (match d_nat n0 with
+               | Some x -> Some (Some x)
+               | None -> None)
+      | _ :: _ -> None))
+
+(** val s_vsrc : vsrc -> sexp **)
+
+let s_vsrc = function
+| SrcPkg -> s_tag ('p'::('k'::('g'::[]))) []
+| SrcDir d -> s_tag ('d'::('i'::('r'::[]))) ((SAtom d) :: [])
+| SrcName n0 -> s_tag ('n'::('a'::('m'::('e'::[])))) ((SAtom n0) :: [])
+
+(** val s_volume : volume -> sexp **)
+
+let s_volume v =
+  SList ((s_vsrc v.v_src) :: ((SAtom
+    v.v_dst) :: ((match v.v_mode with
+                  | Some m -> SList ((SAtom m) :: [])
+                  | None -> SList []) :: [])))
+
+(** val s_call : call -> sexp **)
+
+let s_call c =
+  SList ((SAtom c.c_image) :: ((s_strs c.c_command) :: ((SList
+    (map s_volume c.c_volumes)) :: ((s_bool c.c_remove) :: ((s_bool
+                                                              c.c_stream) :: [])))))
+
+(** val s_effects : effects -> sexp **)
+
+let s_effects x =
+  SList ((SList (map s_call x.x_calls)) :: ((SAtom
+    x.x_filelist) :: ((s_result s_strs x.x_outcome) :: [])))
+
+(** val run_execute : sexp -> sexp **)
+
+let run_execute = function
+| SAtom _ -> bad_input
+| SList l ->
+  (match l with
+   | [] -> bad_input
+   | s0 :: l0 ->
+     (match s0 with
+      | SAtom _ -> bad_input
+      | SList fs ->
+        (match l0 with
+         | [] -> bad_input
+         | s1 :: l1 ->
+           (match s1 with
+            | SAtom image ->
+              (match l1 with
+               | [] -> bad_input
+               | s2 :: l2 ->
+                 (match s2 with
+                  | SAtom tag ->
+                    (match l2 with
+                     | [] -> bad_input
+                     | od :: l3 ->
+                       (match l3 with
+                        | [] -> bad_input
+                        | be :: l4 ->
+                          (match l4 with
+                           | [] -> bad_input
+                           | s3 :: l5 ->
+                             (match s3 with
+                              | SAtom tmp ->
+                                (match l5 with
+                                 | [] -> bad_input
+                                 | s4 :: l6 ->
+                                   (match s4 with
+                                    | SAtom cwd ->
+                                      (match l6 with
+                                       | [] -> bad_input
+                                       | ode :: l7 ->
+                                         (match l7 with
+                                          | [] -> bad_input
+                                          | s5 :: l8 ->
+                                            (match s5 with
+                                             | SAtom _ -> bad_input
+                                             | SList mds ->
+                                               (match l8 with
+                                                | [] -> bad_input
+                                                | tr :: l9 ->
+                                                  (match l9 with
+                                                   | [] -> bad_input
+                                                   | ac :: l10 ->
+                                                     (match l10 with
+                                                      | [] -> bad_input
+                                                      | s6 :: l11 ->
+                                                        (match s6 with
+                                                         | SAtom _ ->
+                                                           bad_input
+                                                         | SList chs ->
+                                                           (match l11 with
+                                                            | [] -> bad_input
+                                                            | fa :: l12 ->
+                                                              (match l12 with
+                                                               | [] ->
+                                                                 bad_input
+                                                               | res :: l13 ->
+                                                                 (match l13 with
+                                                                  | [] ->
+                                                                    (match 
+                                                                    d_list
+                                                                    d_file fs with
+                                                                    | Some fs' ->
+                                                                    (match 
+                                                                    d_opt_str
+                                                                    od with
+                                                                    | Some od' ->
+                                                                    (match 
+                                                                    d_backend_
+                                                                    be with
+                                                                    | Some be' ->
+                                                                    (match 
+                                                                    d_bool ode with
+                                                                    | Some ode' ->
+                                                                    (match 
+                                                                    d_list
+                                                                    d_md mds with
+                                                                    | Some mds' ->
+                                                                    (match 
+                                                                    d_opt_str
+                                                                    tr with
+                                                                    | Some tr' ->
+                                                                    (match 
+                                                                    d_bool ac with
+                                                                    | Some ac' ->
+                                                                    (match 
+                                                                    d_list
+                                                                    d_chunk
+                                                                    chs with
+                                                                    | Some chs' ->
+                                                                    (match 
+                                                                    d_opt_nat
+                                                                    fa with
+                                                                    | Some fa' ->
+                                                                    (match 
+                                                                    d_bool res with
+                                                                    | Some res' ->
+                                                                    s_effects
+                                                                    (run
+                                                                    { a_files =
+                                                                    fs';
+                                                                    a_image =
+                                                                    image;
+                                                                    a_tag =
+                                                                    tag;
+                                                                    a_outdir =
+                                                                    od';
+                                                                    a_backend =
+                                                                    be' }
+                                                                    { e_tmpdir =
+                                                                    tmp;
+                                                                    e_cwd =
+                                                                    cwd;
+                                                                    e_outdir_exists =
+                                                                    ode' }
+                                                                    { q_mds =
+                                                                    mds';
+                                                                    q_translate =
+                                                                    (option_map
+                                                                    (fun x ->
+                                                                    ErrOther
+                                                                    x) tr') }
+                                                                    { k_at_call =
+                                                                    ac';
+                                                                    k_chunks =
+                                                                    chs';
+                                                                    k_fail_after =
+                                                                    fa';
+                                                                    k_result =
+                                                                    res' })
+                                                                    | None ->
+                                                                    bad_input)
+                                                                    | None ->
+                                                                    bad_input)
+                                                                    | None ->
+                                                                    bad_input)
+                                                                    | None ->
+                                                                    bad_input)
+                                                                    | None ->
+                                                                    bad_input)
+                                                                    | None ->
+                                                                    bad_input)
+                                                                    | None ->
+                                                                    bad_input)
+                                                                    | None ->
+                                                                    bad_input)
+                                                                    | None ->
+                                                                    bad_input)
+                                                                    | None ->
+                                                                    bad_input)
+                                                                  | _ :: _ ->
+                                                                    bad_input))))))))))
+                                    | SList _ -> bad_input))
+                              | SList _ -> bad_input))))
+                  | SList _ -> bad_input))
+            | SList _ -> bad_input))))
 
 (** val dispatch : char list -> sexp -> sexp **)
 
@@ -924,6 +3801,9 @@ let dispatch cmd arg =
   else if eqb0 cmd
             ('c'::('1'::('2'::('.'::('a'::('u'::('d'::('i'::('t'::[])))))))))
        then audit math_env documented
-       else s_tag
-              ('u'::('n'::('k'::('n'::('o'::('w'::('n'::('-'::('c'::('o'::('m'::('m'::('a'::('n'::('d'::[])))))))))))))))
-              ((SAtom cmd) :: [])
+       else if eqb0 cmd
+                 ('c'::('1'::('7'::('.'::('e'::('x'::('e'::('c'::('u'::('t'::('e'::[])))))))))))
+            then run_execute arg
+            else s_tag
+                   ('u'::('n'::('k'::('n'::('o'::('w'::('n'::('-'::('c'::('o'::('m'::('m'::('a'::('n'::('d'::[])))))))))))))))
+                   ((SAtom cmd) :: [])
